@@ -6,287 +6,579 @@ R05.3 the divider literal is one constant at all filter sites and yields neither
 R05.4 sticky hierarchy flag in the level loop of _render_body; R05.5 heading rows are budgeted with
 the group's first data row; R05.6 subline heading assigned for every page and rendered unconditionally;
 R05.7 boundaries compare consecutive rows column by column and segments are rendered before headings.
+
+The rules interpret the relevant functions / loop iterations over symbolic inputs (LDT below) and judge what
+is read, compared, emitted and stored.  A construct that cannot be re-identified is an analysis gap
+(ctx.gap), a violation is reported only when a recognised construct contradicts the property.
 """
 from __future__ import annotations
 
 import ast
 import itertools
+from dataclasses import dataclass
+from fractions import Fraction
+from typing import Any
 
-from ..dtab import DT, NeedAtom, Sym
-from ..linform import linform, single_assign_env
-from ..pm import AnalysisError, dotted, unparse, walk_no_nested
+from ..astmatch import assignments, guard_atoms, guards, mutated, resolve, strip_wrappers
+from ..astmatch import leaves as ast_leaves
+from ..dtab import DT, NeedAtom, Run, Sym, Unsupported, _Break, _Continue, _OPS, _cmp, enumerate_block
+from ..pm import dotted, unparse, walk_no_nested
 from ..report import Ctx
 
 DIVIDER = "-----"
 
+# ------------------------------------------------------------------------------------------------------------
+# A lenient symbolic interpreter (on top of sa/dtab.DT) with *structured* symbolic values.  Rules run one loop
+# iteration / one function over symbolic inputs and then inspect what was read, compared, emitted and stored,
+# instead of looking at statement text: temporaries, helper calls, guard clauses vs nesting, loops vs
+# comprehensions and statement order (where it does not matter) all disappear in the interpretation.
+# ------------------------------------------------------------------------------------------------------------
 
-def r05_1(ctx: Ctx) -> None:
-    pm = ctx.pm
-    for short in ("PageByStrategy.paginate", "SublineStrategy.paginate"):
-        fi = pm.func(short)
-        env = single_assign_env(fi.node)
-        calls_h = [c for c in walk_no_nested(fi.node) if isinstance(c, ast.Call) and dotted(c.func).endswith("_get_group_headers")]
-        calls_b = [c for c in walk_no_nested(fi.node) if isinstance(c, ast.Call) and dotted(c.func).endswith("_detect_group_boundaries")]
-        for c in calls_h:
-            args = [unparse(a) for a in c.args]
-            cols = c.args[1]
-            while isinstance(cols, ast.Name) and cols.id in env:
-                cols = env[cols.id]
-            ok = len(args) == 3 and args[0] == "context.df" and args[2] == "start_row" and unparse(cols) in ("context.rtf_body.page_by", "context.rtf_body.subline_by")
-            ctx.instance("R05.1", fi.where(c), f"{short}: _get_group_headers({', '.join(args)})")
-            if not ok:
-                ctx.violation("R05.1", short, "group headers args " + ",".join(args), fi.where(c), f"{short}: heading values are not read from the page's own first row (context.df, cols, start_row)")
-        for c in calls_b:
-            args = [unparse(a) for a in c.args]
-            ok = args[:1] == ["context.df"] and args[2:] == ["start_row", "end_row"]
-            ctx.instance("R05.1", fi.where(c), f"{short}: _detect_group_boundaries({', '.join(args)})")
-            if not ok:
-                ctx.violation("R05.1", short, "boundaries args " + ",".join(args), fi.where(c), f"{short}: in-page boundaries are not searched in the page's own [start_row, end_row]")
-        if not calls_b or not calls_h:
-            ctx.violation("R05.1", short, "heading calls missing", fi.where(), f"{short}: page_by heading info / boundaries are no longer attached to pages")
-        # attached only under `if page_by`
-        t = unparse(fi.node)
-        if "page_ctx.pageby_header_info = self._get_group_headers(context.df, page_by, start_row)" not in t or "page_ctx.group_boundaries = group_boundaries" not in t:
-            ctx.violation("R05.1", short, "heading attachment", fi.where(), f"{short}: heading info / boundaries are not stored on the page they were computed for")
-    g = pm.func("PageByStrategy._get_group_headers")
-    t = unparse(g.node)
-    ok = "val = df[col][start_row]" in t and "for col in page_by" in t and "group_values[col] = val" in t
-    ctx.instance("R05.1", g.where(), f"_get_group_headers reads df[col][start_row] for each page_by column in order: {ok}")
-    if not ok:
-        ctx.violation("R05.1", g.short, "heading source", g.where(), "group heading values are not the values of the page's first row, level by level in page_by order")
-    b = pm.func("PageByStrategy._detect_group_boundaries")
-    tb = unparse(b.node)
-    loop = [n for n in walk_no_nested(b.node) if isinstance(n, ast.For)]
-    rng_ok = bool(loop) and unparse(loop[0].iter).replace(" ", "") == "range(start_row,end_row)"
-    rel = None
-    for d in ast.walk(b.node):
-        if isinstance(d, ast.Dict):
-            for k, v in zip(d.keys, d.values):
-                if isinstance(k, ast.Constant) and k.value == "page_relative_row":
-                    rel = linform(v)
-                if isinstance(k, ast.Constant) and k.value == "absolute_row":
-                    absr = linform(v)
-    iv = loop[0].target.id if loop and isinstance(loop[0].target, ast.Name) else "row_idx"
-    rel_ok = rel == {iv: 1, "": 1, "start_row": -1}
-    ctx.instance("R05.1", b.where(), f"boundaries: loop {unparse(loop[0].iter) if loop else '?'}; page_relative_row = {rel}")
-    if not rng_ok:
-        ctx.violation("R05.1", b.short, "boundary range", b.where(), "boundaries are not searched between every pair of consecutive rows of the page (range(start_row, end_row))")
-    if not rel_ok:
-        ctx.violation("R05.1", b.short, f"page_relative_row {rel}", b.where(), "a boundary's page-relative row is not (row index of the new group's first row) - start_row")
+@dataclass(frozen=True, eq=False)
+class Init(Sym):
+    """the value a local / parameter has on entry to the analysed block"""
 
 
-def r05_2(ctx: Ctx) -> None:
-    """shown(new_page, pageby_row) at render step 7 == at _render_body == columns removed in prepare_dataframe"""
-    pm = ctx.pm
-    tables = {}
-    # render step 7 and _render_body: the conjunct mentioning new_page/pageby_row inside their guards
-    for short, marker in (("PageRenderer.render", "pageby_header_info"), ("PageRenderer._render_body", "group_boundaries")):
-        fi = pm.func(short)
-        tests = [n.test for n in walk_no_nested(fi.node) if isinstance(n, ast.If) and marker in unparse(n.test) and "pageby_row" in unparse(n.test)]
-        if len(tests) != 1:
-            ctx.violation("R05.2", short, "guard missing", fi.where(), f"{short}: no guard on (new_page, pageby_row) decides whether spanning rows are shown")
-            continue
-        test = tests[0]
-        sub = [v for v in (test.values if isinstance(test, ast.BoolOp) else [test]) if "pageby_row" in unparse(v)]
-        tbl = {}
-        for npg, pbr in itertools.product([True, False], ["column", "first_row"]):
-            dt = DT(pm, atoms={"document.rtf_body.pageby_row": ["column", "first_row"]}, classes={"document": "RTFDocument", "document.rtf_body": "RTFBody"})
-            dt.val = {"bool(document.rtf_body.new_page)": npg, "document.rtf_body.pageby_row": pbr}
-            try:
-                tbl[(npg, pbr)] = bool(dt.truth(dt.ev(sub[0], {"document": Sym("document", "RTFDocument"), "__fi__": fi})))
-            except NeedAtom as e:
-                ctx.violation("R05.2", short, "depends on " + e.key, fi.where(), f"{short}: showing spanning rows depends on `{e.key}`")
-                tbl = None
-                break
-        tables[short] = tbl
-        ctx.instance("R05.2", fi.where(), f"{short}: spanning rows shown <=> `{unparse(sub[0])}` -> {tbl}")
-    # removal predicate in prepare_dataframe_for_body_encoding
-    p = pm.func("RTFEncodingService.prepare_dataframe_for_body_encoding")
-    blk = [n for n in walk_no_nested(p.node) if isinstance(n, ast.If) and unparse(n.test) == "rtf_attrs.page_by is not None"]
-    if len(blk) != 1:
-        ctx.violation("R05.2", p.short, "removal block", p.where(), "page_by column removal is no longer decided under `page_by is not None`")
-    else:
-        from ..dtab import enumerate_block
-        tbl = {}
-        for npg, pbr in itertools.product([True, False], ["column", "first_row"]):
-            dt = DT(pm, atoms={"rtf_attrs.pageby_row": ["column", "first_row"]}, classes={"rtf_attrs": "RTFBody"})
-            dt.val = {"bool(rtf_attrs.new_page)": npg, "rtf_attrs.pageby_row": pbr}
-            env = {"rtf_attrs": Sym("rtf_attrs", "RTFBody"), "columns_to_remove": Sym("columns_to_remove"), "__fi__": p}
-            dt.effect_calls = {"update"}
-            dt.stores = {}
-            from ..dtab import Run
-            dt.run_state = Run()
-            try:
-                dt.block(blk[0].body, env)
-            except NeedAtom as e:
-                ctx.violation("R05.2", p.short, "depends on " + e.key, p.where(), f"column removal depends on `{e.key}`")
-                tbl = None
-                break
-            tbl[(npg, pbr)] = any(e[0] == "call" and e[1] == "update" and "page_by" in str(e[3]) for e in dt.run_state.effects)
-        tables[p.short] = tbl
-        ctx.instance("R05.2", p.where(blk[0]), f"page_by columns removed <=> {tbl}")
-    spec = {(n, r): (not n) or r != "column" for n, r in itertools.product([True, False], ["column", "first_row"])}
-    for k, tbl in tables.items():
-        if tbl is not None and tbl != spec:
-            diff = {kk: vv for kk, vv in tbl.items() if spec[kk] != vv}
-            ctx.violation("R05.2", k, f"predicate {diff}", pm.func(k).where(),
-                          f"{k}: 'page_by values are shown as spanning rows / their columns are removed' differs from `not new_page or pageby_row != 'column'` at {diff}; "
-                          "the three sites must agree or values vanish (column removed, no heading) or appear twice")
-    ctx.floor("R05.2", 3)
+@dataclass(frozen=True, eq=False)
+class ElemSym(Sym):
+    """a universally quantified element of a symbolic iterable"""
+    source: Any = None
 
 
-def r05_3(ctx: Ctx) -> None:
-    pm = ctx.pm
-    sites = []
-    for fi in pm.iter_funcs():
-        for c in walk_no_nested(fi.node):
-            if isinstance(c, ast.Compare) and any(isinstance(x, ast.Constant) and isinstance(x.value, str) and set(x.value) == {"-"} and len(x.value) >= 3 for x in [c.left] + c.comparators):
-                sites.append((fi, c))
-    want_funcs = {"PageByStrategy._get_group_headers": 1, "PageByStrategy._detect_group_boundaries": 1, "PageBreakCalculator.calculate_row_metadata": 2}
-    found = {}
-    for fi, c in sites:
-        lit = next(x.value for x in [c.left] + c.comparators if isinstance(x, ast.Constant) and isinstance(x.value, str))
-        found[fi.short] = found.get(fi.short, 0) + 1
-        other = c.left if not isinstance(c.left, ast.Constant) else c.comparators[0]
-        ok = lit == DIVIDER and isinstance(c.ops[0], ast.NotEq) and unparse(other).startswith("str(")
-        ctx.instance("R05.3", fi.where(c), f"{fi.short}: divider filter `{unparse(c)}`")
-        if not ok:
-            ctx.violation("R05.3", fi.short, "divider filter " + unparse(c), fi.where(c), f"{fi.short}: divider values are filtered by `{unparse(c)}`; all sites must use str(value) != '{DIVIDER}'")
-    for f, n in want_funcs.items():
-        if found.get(f, 0) < n:
-            ctx.violation("R05.3", f, f"divider filter sites {found.get(f, 0)}/{n}", pm.func(f).where(), f"{f}: divider ('{DIVIDER}') values are no longer filtered here; they would produce a heading or cost a row")
-    # a filtered value yields no heading and no budget: header_text empty -> pageby_rows stays 0
-    c = pm.func("PageBreakCalculator.calculate_row_metadata")
-    t = unparse(c.node)
-    ok = t.count("if header_text:") >= 2 and "pageby_rows = 0" in t and "subline_rows = 0" in t
-    ctx.instance("R05.3", c.where(), f"heading budget only when header text is non-empty: {ok}")
-    if not ok:
-        ctx.violation("R05.3", c.short, "divider budget", c.where(), "a group whose values are all dividers is still budgeted with heading rows")
-    r = pm.func("PageRenderer.render")
-    ok_r = "if val is None:\n                    continue" in unparse(r.node) or "if val is None:" in unparse(r.node)
-    ctx.floor("R05.3", 4)
+@dataclass(frozen=True, eq=False)
+class SubSym(Sym):
+    base: Any = None
+    key: Any = None
 
 
-def r05_4(ctx: Ctx) -> None:
-    pm = ctx.pm
-    fi = pm.func("PageRenderer._render_body")
-    lvl = [n for n in ast.walk(fi.node) if isinstance(n, ast.For) and isinstance(n.iter, ast.Name) and n.iter.id == "page_by_cols"]
-    if len(lvl) != 1:
-        ctx.violation("R05.4", fi.short, "level loop", fi.where(), "headings at a boundary are no longer produced by one loop over the page_by levels")
+@dataclass(frozen=True, eq=False)
+class SliceSym(Sym):
+    base: Any = None
+    lo: Any = None
+    hi: Any = None
+
+
+@dataclass(frozen=True, eq=False)
+class CallSym(Sym):
+    recv: Any = None
+    meth: str = ""
+    args: tuple = ()
+    kw: tuple = ()
+
+
+@dataclass(frozen=True, eq=False)
+class RangeSym(Sym):
+    lo: Any = None
+    hi: Any = None
+
+
+@dataclass(frozen=True, eq=False)
+class LinSym(Sym):
+    lin: tuple = ()          # sorted ((term path, coefficient), ...), '' = constant
+    terms: tuple = ()        # the symbolic values the terms stand for
+
+
+@dataclass(frozen=True, eq=False)
+class CmpSym(Sym):
+    """a comparison used as a value (data-frame expression), not as a branch condition"""
+    op: Any = None
+    left: Any = None
+    right: Any = None
+
+
+@dataclass(frozen=True, eq=False)
+class BoolSym(Sym):
+    """element-wise | / & of data-frame expressions"""
+    op: str = "|"
+    operands: tuple = ()
+
+
+@dataclass(frozen=True, eq=False)
+class Carried(Init):
+    """a local with a definite value before a symbolic loop, as seen inside an arbitrary iteration"""
+    entry: Any = None
+
+
+def path_of(v) -> str:
+    if isinstance(v, Sym):
+        return v.path
+    if isinstance(v, dict):
+        return "{" + ", ".join(f"{k}: {path_of(x)}" for k, x in v.items()) + "}"
+    if isinstance(v, (list, tuple)):
+        return "[" + ", ".join(path_of(x) for x in v) + "]"
+    return repr(v) if isinstance(v, str) else str(v)
+
+
+def has_sym(v, depth: int = 0) -> bool:
+    if isinstance(v, Sym):
+        return True
+    if depth > 4:
+        return False
+    if isinstance(v, dict):
+        return any(has_sym(x, depth + 1) for x in v.values())
+    if isinstance(v, (list, tuple)):
+        return any(has_sym(x, depth + 1) for x in v)
+    return False
+
+
+def parts(v, depth: int = 0):
+    """the symbolic value and everything it was built from"""
+    if depth > 12:
         return
-    lp = lvl[0]
-    env = {unparse(a.targets[0]): unparse(a.value) for a in ast.walk(fi.node) if isinstance(a, ast.Assign) and len(a.targets) == 1 and isinstance(a.targets[0], ast.Name) and a.targets[0].id == "page_by_cols"}
-    order_ok = env.get("page_by_cols") in ("document.rtf_body.page_by or []", "document.rtf_body.page_by")
-    assigns = [a for a in ast.walk(lp) if isinstance(a, ast.Assign) and unparse(a.targets[0]) == "force_render"]
-    aug = [a for a in ast.walk(lp) if isinstance(a, ast.AugAssign) and unparse(a.target) == "force_render"]
-    only_true = bool(assigns) and all(isinstance(a.value, ast.Constant) and a.value.value is True for a in assigns) and not aug
-    # initialised False immediately before the loop, in the same block
-    parent = getattr(lp, "_parent", None)
-    body = getattr(parent, "body", [])
-    pre = [s for s in body[:body.index(lp)] if isinstance(s, ast.Assign) and unparse(s.targets[0]) == "force_render"] if lp in body else []
-    init_ok = bool(pre) and unparse(pre[-1].value) == "False"
-    guards = [n for n in ast.walk(lp) if isinstance(n, ast.If) and "force_render" in unparse(n.test)]
-    guard_ok = len(guards) == 1 and unparse(guards[0].test) in ("str(val) != str(last_val) or force_render", "force_render or str(val) != str(last_val)")
-    in_guard = guards and all(any(x is a for x in ast.walk(guards[0])) for a in assigns)
-    span = [c for c in ast.walk(lp) if isinstance(c, ast.Call) and dotted(c.func).endswith("encode_spanning_row")]
-    span_ok = len(span) == 1 and guards and any(x is span[0] for s in guards[0].body for x in ast.walk(s))
-    ctx.instance("R05.4", fi.where(lp), f"level loop over {env.get('page_by_cols')}; force_render init False {init_ok}, only ever set True {only_true}, "
-                 f"guard `{unparse(guards[0].test) if guards else '?'}`; heading emitted inside the guard {bool(span_ok)}")
-    if not order_ok:
-        ctx.violation("R05.4", fi.short, "level order " + str(env.get("page_by_cols")), fi.where(lp), "levels are not visited in page_by declaration order (outer before inner)")
-    if not (init_ok and only_true and in_guard):
-        ctx.violation("R05.4", fi.short, "sticky flag", fi.where(lp),
-                      "the 'a higher level changed' flag must start False at each boundary, be set True when a level changes and never be reset inside the level loop "
-                      "(otherwise inner headings are skipped when an outer level changes but inner values repeat)")
-    if not guard_ok:
-        ctx.violation("R05.4", fi.short, "level guard " + (unparse(guards[0].test) if guards else "?"), fi.where(lp), "a level's heading must be emitted when its value changed or a higher level changed")
-    if not span_ok:
-        ctx.violation("R05.4", fi.short, "heading emission", fi.where(lp), "the level heading is not emitted inside the change guard")
-    txt = unparse(span[0]) if span else ""
-    if span and "text=header_text" not in txt or "header_text = str(val)" not in unparse(lp):
-        ctx.violation("R05.4", fi.short, "heading text", fi.where(lp), "the heading text is not the new value of that level")
-    if "last_values.update(new_values)" not in unparse(fi.node):
-        ctx.violation("R05.4", fi.short, "state update", fi.where(), "the remembered group values are not updated after a boundary")
-    if "last_values = page.pageby_header_info['group_values'].copy()" not in unparse(fi.node):
-        ctx.violation("R05.4", fi.short, "state init", fi.where(), "the remembered group values do not start from the page-top heading values")
-    # page-top headings: every level of the page's first row
-    r = pm.func("PageRenderer.render")
-    tr = unparse(r.node)
-    ok = "for col_name, val in page.pageby_header_info['group_values'].items():" in tr and "header_text = str(val)" in tr
-    ctx.instance("R05.4", r.where(), f"page-top headings: one spanning row per level of pageby_header_info in order: {ok}")
-    if not ok:
-        ctx.violation("R05.4", r.short, "page-top headings", r.where(), "the page does not start with one heading per page_by level of its first row")
+    yield v
+    if isinstance(v, dict):
+        for x in v.values():
+            yield from parts(x, depth + 1)
+    elif isinstance(v, (list, tuple)):
+        for x in v:
+            yield from parts(x, depth + 1)
+    elif isinstance(v, ElemSym):
+        yield from parts(v.source, depth + 1)
+    elif isinstance(v, (SubSym,)):
+        yield from parts(v.base, depth + 1)
+        yield from parts(v.key, depth + 1)
+    elif isinstance(v, SliceSym):
+        yield from parts(v.base, depth + 1)
+        yield from parts(v.lo, depth + 1)
+        yield from parts(v.hi, depth + 1)
+    elif isinstance(v, CallSym):
+        yield from parts(v.recv, depth + 1)
+        yield from parts(v.args, depth + 1)
+        yield from parts(tuple(x for _k, x in v.kw), depth + 1)
+    elif isinstance(v, RangeSym):
+        yield from parts(v.lo, depth + 1)
+        yield from parts(v.hi, depth + 1)
+    elif isinstance(v, LinSym):
+        yield from parts(v.terms, depth + 1)
+    elif isinstance(v, CmpSym):
+        yield from parts(v.left, depth + 1)
+        yield from parts(v.right, depth + 1)
+    elif isinstance(v, BoolSym):
+        yield from parts(v.operands, depth + 1)
 
 
-def r05_5_6(ctx: Ctx) -> None:
-    pm = ctx.pm
-    c = pm.func("PageBreakCalculator.calculate_row_metadata")
-    tr = [a for a in ast.walk(c.node) if isinstance(a, ast.Assign) and unparse(a.targets[0]) == "total_rows"]
-    ok = len(tr) == 1 and linform(tr[0].value) == {"max_lines_in_row": 1, "pageby_rows": 1, "subline_rows": 1}
-    ctx.instance("R05.5", c.where(), f"row height includes its headings: total_rows = {unparse(tr[0].value) if tr else '?'}")
-    if not ok:
-        ctx.violation("R05.5", c.short, "total_rows", c.where(), "heading rows are not budgeted together with the group's first data row (a heading can be stranded at the bottom of a page)")
-    t = unparse(c.node)
-    ok2 = "if page_by and page_by_changes[row_idx]:" in t and "if subline_by and subline_by_changes[row_idx]:" in t
-    if not ok2:
-        ctx.violation("R05.5", c.short, "heading rows condition", c.where(), "heading rows are not counted exactly at rows that start a group")
-    s = pm.func("SublineStrategy.paginate")
-    ts = unparse(s.node)
-    loop = [n for n in walk_no_nested(s.node) if isinstance(n, ast.For) and unparse(n.iter) == "unique_pages"]
-    st = [a for a in ast.walk(s.node) if isinstance(a, ast.Assign) and unparse(a.targets[0]) == "page_ctx.subline_header"]
-    guard = [unparse(x.test) for a in st for x in _anc(a, s.node) if isinstance(x, ast.If)]
-    ok = len(st) == 1 and loop and any(x is st[0] for x in ast.walk(loop[0])) and guard == ["subline_by"] and "self._get_group_headers(context.df, subline_by, start_row)" in unparse(st[0])
-    ctx.instance("R05.6", s.where(), f"subline heading assigned for every page from its first row: {bool(ok)} (guards {guard})")
-    if not ok:
-        ctx.violation("R05.6", s.short, "subline header assignment", s.where(), "not every page gets the subline heading of its own first row")
-    r = pm.func("PageRenderer.render")
-    g = [n for n in walk_no_nested(r.node) if isinstance(n, ast.If) and "_generate_subline_header" in unparse(n)]
-    tests = [unparse(n.test) for n in g]
-    ctx.instance("R05.6", r.where(), f"subline heading rendered under {tests}")
-    if not tests or tests[0] != "page.subline_header":
-        ctx.violation("R05.6", r.short, "subline header guard " + str(tests), r.where(), "the subline heading is rendered under a condition other than 'the page has one' (e.g. first page only)")
-    f = pm.func("PageRenderer._format_group_header")
-    tf = unparse(f.node)
-    if "[str(v) for v in info['group_values'].values() if v is not None]" not in tf or "', '.join(parts)" not in tf:
-        ctx.violation("R05.6", f.short, "heading text", f.where(), "the subline heading text is not the page's group values")
+def called(v) -> set[str]:
+    return {p.meth for p in parts(v) if isinstance(p, CallSym)}
 
 
-def r05_7(ctx: Ctx) -> None:
-    pm = ctx.pm
-    b = pm.func("PageByStrategy._detect_group_boundaries")
-    tb = unparse(b.node)
-    ok = "current_group = {col: df[col][row_idx] for col in page_by}" in tb and "next_group = {col: df[col][row_idx + 1] for col in page_by}" in tb and "if current_group != next_group:" in tb
-    ctx.instance("R05.7", b.where(), f"boundary detection compares per-column dicts of consecutive rows: {ok}")
-    if not ok:
-        hint = ""
-        for x in ast.walk(b.node):
-            if isinstance(x, ast.Call) and (dotted(x.func).endswith("concat_str") or (isinstance(x.func, ast.Attribute) and x.func.attr in ("join", "shift"))):
-                hint = f" (found `{unparse(x)[:60]}`)"
-        ctx.violation("R05.7", b.short, "boundary comparison", b.where(), f"group boundaries are no longer found by comparing consecutive rows column by column{hint}")
-    rb = pm.func("PageRenderer._render_body")
-    loop = [n for n in ast.walk(rb.node) if isinstance(n, ast.For) and unparse(n.iter) == "page.group_boundaries"]
-    if len(loop) != 1:
-        ctx.violation("R05.7", rb.short, "boundary loop", rb.where(), "_render_body no longer walks the page's group boundaries in order")
-        return
-    lp = loop[0]
-    # order inside the loop: segment before headings; cursor advanced unconditionally at the end
-    idx = {"seg": None, "head": None, "adv": None}
-    for i, s in enumerate(lp.body):
-        t = unparse(s)
-        if "_encode(segment" in t and idx["seg"] is None:
-            idx["seg"] = i
-        if "encode_spanning_row" in t and idx["head"] is None:
-            idx["head"] = i
-        if isinstance(s, ast.Assign) and unparse(s.targets[0]) == "prev_row":
-            idx["adv"] = i
-    cont = [x for s in lp.body for x in ast.walk(s) if isinstance(x, (ast.Continue, ast.Break)) and not any(isinstance(a, ast.For) and a is not lp for a in _anc(x, lp))]
-    ok = None not in idx.values() and idx["seg"] < idx["head"] < idx["adv"] and idx["adv"] == len(lp.body) - 1 and not cont
-    ctx.instance("R05.7", rb.where(lp), f"boundary loop statement order segment@{idx['seg']} < headings@{idx['head']} < cursor@{idx['adv']} (last), early exits: {len(cont)}")
-    if not ok:
-        ctx.violation("R05.7", rb.short, f"boundary loop order {idx} exits={len(cont)}", rb.where(lp),
-                      "at each boundary the rows before it must be rendered first, then the headings, and the cursor must advance unconditionally "
-                      "(a skipped cursor update renders the rows before the boundary twice)")
+_NUM = (int, float, Fraction)
 
+
+def lin_of(v) -> dict | None:
+    """linear form {term path: coefficient, '': constant} of a numeric symbolic value"""
+    if isinstance(v, bool):
+        return None
+    if isinstance(v, _NUM):
+        return {"": v} if v else {}
+    if isinstance(v, LinSym):
+        return dict(v.lin)
+    if isinstance(v, Sym):
+        return {v.path: 1}
+    return None
+
+
+def lin_sub(a: dict, b: dict) -> dict:
+    out = dict(a)
+    for k, c in b.items():
+        out[k] = out.get(k, 0) - c
+        if out[k] == 0:
+            del out[k]
+    return out
+
+
+class LDT(DT):
+    def __init__(self, pm, watch=(), skip_loops=(), **kw):
+        super().__init__(pm, **kw)
+        self.watch = set(watch)
+        self.skip_loops = list(skip_loops)
+        self.cmp: dict[str, tuple] = {}          # atom key -> (op type | 'is None' | 'truth', left, right)
+        self.reads: set[str] = set()             # names whose entry value was read
+        self._pre: dict[int, Any] = {}
+
+    # ---- leniency
+    def ev(self, n, env):
+        if id(n) in self._pre:
+            return self._pre.pop(id(n))
+        try:
+            return super().ev(n, env)
+        except (Unsupported, TypeError, AttributeError, ValueError, IndexError, KeyError):
+            return Sym("?" + unparse(n)[:80])
+
+    def stmt(self, s, env):
+        if isinstance(s, ast.For):
+            return self._for(s, env)
+        if isinstance(s, ast.AugAssign):
+            try:
+                self.run_state.effects.append(("call", "aug" + type(s.op).__name__, self.ev(s.target, env), (self.ev(s.value, env),), {}, s))
+            except NeedAtom:
+                raise
+        try:
+            return super().stmt(s, env)
+        except Unsupported:
+            for t in ast.walk(s):
+                if isinstance(t, ast.Name) and isinstance(t.ctx, ast.Store):
+                    env[t.id] = Sym("?" + t.id)
+
+    def _for(self, s, env):
+        if any(s is x for x in self.skip_loops):
+            self.run_state.effects.append(("loop", s, dict(env)))
+            return
+        it = self.concrete(self.ev(s.iter, env))
+        if isinstance(it, dict):
+            it = list(it)
+        self.run_state.effects.append(("iter", s, it))
+        if isinstance(it, (list, tuple, range)):
+            try:
+                for x in it:
+                    self.assign(s.target, x, env)
+                    try:
+                        self.block(s.body, env)
+                    except _Continue:
+                        continue
+            except _Break:
+                pass
+            return
+        elem = ElemSym(f"∀{unparse(s.target)}∈{path_of(it)}", None, it)
+        stored = {t.id for st in s.body for t in ast.walk(st) if isinstance(t, ast.Name) and isinstance(t.ctx, ast.Store)}
+        loaded = {t.id for st in s.body for t in ast.walk(st) if isinstance(t, ast.Name) and isinstance(t.ctx, ast.Load)}
+        for nme in sorted((stored & loaded) - {t.id for t in ast.walk(s.target) if isinstance(t, ast.Name)}):
+            if nme in env and not isinstance(env[nme], Init):
+                env[nme] = Carried(nme, None, env[nme])
+        self.assign(s.target, elem, env)
+        try:
+            self.block(s.body, env)
+        except (_Continue, _Break):
+            pass
+
+    # ---- structured values
+    def ev_Name(self, n, env):
+        v = super().ev_Name(n, env)
+        if isinstance(v, Init):
+            self.reads.add(v.path)
+        return v
+
+    def assign(self, t, v, env):
+        if isinstance(t, (ast.Tuple, ast.List)):
+            vv = self.concrete(v)
+            if isinstance(vv, Sym):
+                for i, a in enumerate(t.elts):
+                    self.assign(a, SubSym(f"{vv.path}[{i}]", None, vv, i), env)
+                return
+        if isinstance(t, ast.Attribute):
+            base = self.ev(t.value, env)
+            if isinstance(base, Sym):
+                self.stores[f"{base.path}.{t.attr}"] = v
+                self.run_state.effects.append(("store", base, t.attr, v, t))
+                return
+        if isinstance(t, ast.Subscript):
+            base = self.ev(t.value, env)
+            k = self.concrete(self.ev(t.slice, env))
+            self.run_state.effects.append(("setitem", base, k, v, t))
+            if isinstance(base, dict):
+                base[k.path if isinstance(k, Sym) else k] = v
+                return
+            if isinstance(base, Sym):
+                return
+        return super().assign(t, v, env)
+
+    def ev_Subscript(self, n, env):
+        base = self.concrete(self.ev(n.value, env))
+        if isinstance(base, Sym):
+            if isinstance(n.slice, ast.Slice):
+                lo = self.concrete(self.ev(n.slice.lower, env)) if n.slice.lower else None
+                hi = self.concrete(self.ev(n.slice.upper, env)) if n.slice.upper else None
+                return SliceSym(f"{base.path}[{'' if lo is None else path_of(lo)}:{'' if hi is None else path_of(hi)}]", None, base, lo, hi)
+            k = self.concrete(self.ev(n.slice, env))
+            return SubSym(f"{base.path}[{path_of(k)}]", None, base, k)
+        if isinstance(base, dict) and not isinstance(n.slice, ast.Slice):
+            k = self.concrete(self.ev(n.slice, env))
+            if isinstance(k, ElemSym) and k.path not in base:
+                # the generic element of the same iterable under another loop variable
+                same = [kk for kk in base if isinstance(kk, str) and kk.startswith("∀") and "∈" in kk and kk.split("∈", 1)[1] == k.path.split("∈", 1)[1]]
+                if len(same) == 1:
+                    return base[same[0]]
+            self._pre[id(n.slice)] = k
+        self._pre[id(n.value)] = base
+        try:
+            return super().ev_Subscript(n, env)
+        finally:
+            self._pre.pop(id(n.value), None)
+            self._pre.pop(id(n.slice), None)
+
+    def binop(self, op, l, r, node):
+        l, r = self.concrete(l), self.concrete(r)
+        if isinstance(op, (ast.BitOr, ast.BitAnd)):
+            sym = "|" if isinstance(op, ast.BitOr) else "&"
+            if isinstance(l, bool) and isinstance(r, bool):
+                return (l or r) if sym == "|" else (l and r)
+            if isinstance(l, Sym) or isinstance(r, Sym):
+                ops = []
+                for x in (l, r):
+                    ops.extend(x.operands if isinstance(x, BoolSym) and x.op == sym else [x])
+                return BoolSym("(" + f" {sym} ".join(path_of(x) for x in ops) + ")", None, sym, tuple(ops))
+        if isinstance(op, (ast.Add, ast.Sub)) and (isinstance(l, Sym) or isinstance(r, Sym)):
+            a, b = lin_of(l), lin_of(r)
+            if a is not None and b is not None:
+                d = lin_sub(a, {k: -c for k, c in b.items()}) if isinstance(op, ast.Add) else lin_sub(a, b)
+                if set(d) <= {""}:
+                    return d.get("", 0)
+                items = tuple(sorted(d.items()))
+                txt = " + ".join((f"{c}" if k == "" else (k if c == 1 else f"{c}*{k}")) for k, c in items)
+                raw = {}
+                for x in (l, r):
+                    if isinstance(x, LinSym):
+                        raw.update({t.path: t for t in x.terms})
+                    elif isinstance(x, Sym):
+                        raw[x.path] = x
+                return LinSym(txt, None, items, tuple(raw[k] for k, _c in items if k in raw))
+        return super().binop(op, l, r, node)
+
+    def compare(self, op, l, r, node) -> bool:
+        l, r = self.concrete(l), self.concrete(r)
+        if isinstance(op, (ast.Is, ast.IsNot)) and r is None:
+            if isinstance(l, Sym):
+                self.cmp[f"{l.path} is None"] = ("is None", l, None)
+            return super().compare(op, l, r, node)
+        if has_sym(l) or has_sym(r):
+            if isinstance(op, (ast.Lt, ast.LtE, ast.Gt, ast.GtE, ast.Eq, ast.NotEq)):
+                a, b = lin_of(l), lin_of(r)
+                if a is not None and b is not None:
+                    d = lin_sub(a, b)
+                    if set(d) <= {""}:
+                        return _cmp(op, d.get("", 0), 0)
+            key = f"{path_of(l)} {_OPS[type(op)]} {path_of(r)}"
+            self.cmp[key] = (type(op), l, r)
+            return self.atom(key, [True, False])
+        return super().compare(op, l, r, node)
+
+    def ev_Compare(self, n, env):
+        p = getattr(n, "_parent", None)
+        as_cond = isinstance(p, (ast.If, ast.While, ast.IfExp, ast.BoolOp, ast.Assert, ast.comprehension)) or (isinstance(p, ast.UnaryOp) and isinstance(p.op, ast.Not))
+        if not as_cond and len(n.ops) == 1 and not isinstance(n.ops[0], (ast.Is, ast.IsNot, ast.In, ast.NotIn)):
+            l, r = self.concrete(self.ev(n.left, env)), self.concrete(self.ev(n.comparators[0], env))
+            if has_sym(l) or has_sym(r):
+                a, b = lin_of(l), lin_of(r)
+                if a is not None and b is not None and set(lin_sub(a, b)) <= {""}:
+                    return _cmp(n.ops[0], lin_sub(a, b).get("", 0), 0)
+                return CmpSym(f"({path_of(l)} {_OPS[type(n.ops[0])]} {path_of(r)})", None, type(n.ops[0]), l, r)
+            return _cmp(n.ops[0], l, r)
+        return super().ev_Compare(n, env)
+
+    def ev_UnaryOp(self, n, env):
+        if isinstance(n.op, ast.Invert):
+            v = self.concrete(self.ev(n.operand, env))
+            if isinstance(v, Sym):
+                return CallSym(f"~{v.path}", None, None, "~", (v,), ())
+            if isinstance(v, bool):
+                return not v
+        return super().ev_UnaryOp(n, env)
+
+    def truth(self, v) -> bool:
+        v = self.concrete(v)
+        if isinstance(v, CmpSym):
+            return self.compare(v.op(), v.left, v.right, None)
+        if isinstance(v, Sym):
+            self.cmp[f"bool({v.path})"] = ("truth", v, None)
+        return super().truth(v)
+
+    def _comp(self, n, env, kind):
+        out_l: list = []
+        out_d: dict = {}
+
+        def rec(gi, e):
+            if gi == len(n.generators):
+                if kind == "dict":
+                    k = self.concrete(self.ev(n.key, e))
+                    out_d[k.path if isinstance(k, Sym) else k] = self.ev(n.value, e)
+                else:
+                    out_l.append(self.ev(n.elt, e))
+                return
+            g = n.generators[gi]
+            it = self.concrete(self.ev(g.iter, e))
+            if isinstance(it, dict):
+                it = list(it)
+            items = list(it) if isinstance(it, (list, tuple, range)) else [ElemSym(f"∀{unparse(g.target)}∈{path_of(it)}", None, it)]
+            for x in items:
+                e2 = dict(e)
+                self.assign(g.target, x, e2)
+                if all(self.truth(self.ev(c, e2)) for c in g.ifs):
+                    rec(gi + 1, e2)
+        rec(0, dict(env))
+        return out_d if kind == "dict" else out_l
+
+    def ev_ListComp(self, n, env):
+        return self._comp(n, env, "list")
+
+    ev_GeneratorExp = ev_ListComp
+    ev_SetComp = ev_ListComp
+
+    def ev_DictComp(self, n, env):
+        return self._comp(n, env, "dict")
+
+    def _callsym(self, recv, m, args, kw):
+        rp = (recv.path + ".") if isinstance(recv, Sym) else ((path_of(recv) + ".") if recv is not None else "")
+        return CallSym(f"{rp}{m}({', '.join(path_of(a) for a in args)})", None, recv, m, tuple(args), tuple(sorted(kw.items(), key=lambda x: x[0])))
+
+    def _args(self, n, env):
+        return tuple(self.ev(a.value if isinstance(a, ast.Starred) else a, env) for a in n.args), {k.arg: self.ev(k.value, env) for k in n.keywords if k.arg}
+
+    def ev_Call(self, n, env):
+        f = n.func
+        if isinstance(f, ast.Attribute):
+            m = f.attr
+            if m in self.watch:
+                base = self.ev(f.value, env)
+                args, kw = self._args(n, env)
+                ret = self._callsym(base, m, args, kw)
+                self.run_state.effects.append(("call", m, base, args, kw, n, ret))
+                if isinstance(base, list) and m == "append" and args:
+                    base.append(args[0])
+                elif isinstance(base, list) and m == "extend" and args:
+                    base.extend(args[0]) if isinstance(args[0], (list, tuple)) else base.append(args[0])
+                elif isinstance(base, dict) and m == "update" and args and isinstance(args[0], dict):
+                    base.update(args[0])
+                return ret
+            base = self.ev(f.value, env)
+            if isinstance(base, str) and m == "join":
+                args, kw = self._args(n, env)
+                a0 = self.concrete(args[0]) if args else None
+                if isinstance(a0, (list, tuple)) and all(isinstance(x, str) for x in a0):
+                    return base.join(a0)
+                return self._callsym(base, m, args, kw)
+            if isinstance(base, Sym) and m not in ("copy", "model_copy", "clone") and not self._resolvable(base, m, env):
+                args, kw = self._args(n, env)
+                return self._callsym(base, m, args, kw)
+            self._pre[id(f.value)] = base
+            try:
+                return super().ev_Call(n, env)
+            finally:
+                self._pre.pop(id(f.value), None)
+        if isinstance(f, ast.Name):
+            nm = f.id
+            if nm in self.watch:
+                args, kw = self._args(n, env)
+                ret = CallSym(f"{nm}(…)#{len(self.run_state.effects)}", nm if nm in self.pm.classes else None, None, nm, args, tuple(sorted(kw.items(), key=lambda x: x[0])))
+                self.run_state.effects.append(("call", nm, None, args, kw, n, ret))
+                return ret
+            if nm in ("str", "int", "float") and len(n.args) == 1 and nm not in env:
+                v = self.concrete(self.ev(n.args[0], env))
+                if isinstance(v, Sym):
+                    return CallSym(f"{nm}({v.path})", None, None, nm, (v,), ())
+                return {"int": int, "str": str, "float": float}[nm](v)
+            if nm == "range" and nm not in env:
+                vs = [self.concrete(self.ev(a, env)) for a in n.args]
+                if all(isinstance(v, int) for v in vs):
+                    return range(*vs)
+                if len(vs) <= 2:
+                    lo, hi = (0, vs[0]) if len(vs) == 1 else vs
+                    return RangeSym(f"range({path_of(lo)}, {path_of(hi)})", None, lo, hi)
+            if nm == "reduce" and len(n.args) in (2, 3) and nm not in env:
+                fv = self.ev(n.args[0], env)
+                seq = self.concrete(self.ev(n.args[1], env))
+                fname = fv.path.split(".")[-1] if isinstance(fv, Sym) else ""
+                if fname in ("or_", "and_", "__or__", "__and__") and isinstance(seq, (list, tuple)):
+                    acc = [self.ev(n.args[2], env)] if len(n.args) == 3 else []
+                    items = acc + list(seq)
+                    out = items[0] if items else None
+                    for x in items[1:]:
+                        out = self.binop(ast.BitOr() if "or" in fname else ast.BitAnd(), out, x, n)
+                    return out
+            if nm == "cast" and len(n.args) == 2 and nm not in env:
+                return self.ev(n.args[1], env)
+            try:
+                return super().ev_Call(n, env)
+            except Unsupported:
+                args, kw = self._args(n, env)
+                return self._callsym(None, nm, args, kw)
+        return super().ev_Call(n, env)
+
+    def _resolvable(self, base, m, env) -> bool:
+        fi = env.get("__fi__")
+        bc = self.cls_of(base)
+        if base.path == "self" and fi is not None and fi.cls:
+            bc = bc or fi.cls
+        return bool(bc and self.pm.find_method(bc, m))
+
+
+def sym_env(fi, extra=()):
+    """every parameter and local of the function bound to its symbolic entry value"""
+    fn = fi.node
+    names = set(assignments(fn)) | set(extra)
+    a = fn.args
+    params = [x.arg for x in list(a.posonlyargs) + list(a.args) + list(a.kwonlyargs)]
+
+    def make():
+        env = {nm: Init(nm) for nm in names}
+        for p in params:
+            env[p] = Init(p, fi.cls if p == "self" else None)
+        env["__fi__"] = fi
+        return env
+    return make
+
+
+def run_block(dt: LDT, stmts, env_factory, fi, limit: int = 3000):
+    """[(valuation, env_after, effects, outcome)] over every valuation of the atoms consulted"""
+    return enumerate_block(dt, stmts, env_factory, fi, limit=limit)
+
+
+def run_expr(dt: LDT, fn, limit: int = 3000):
+    """[(valuation, result)] of fn() over every valuation of the atoms it consults"""
+    out, pending, n = [], [dict()], 0
+    while pending:
+        v = pending.pop()
+        n += 1
+        if n > limit:
+            raise Unsupported("decision table exceeds %d evaluations" % limit)
+        dt.val, dt.stores, dt.run_state, dt.depth = v, {}, Run(), 0
+        try:
+            out.append((v, fn()))
+        except NeedAtom as e:
+            for x in e.domain:
+                pending.append({**v, e.key: x})
+    return out
+
+
+def temps_for(fn, stmts) -> list:
+    """synthetic `name = expr` statements for the single-assignment, never-mutated temporaries that the statements use
+    but that are defined elsewhere in the function (so a block can be interpreted on its own)"""
+    asg = assignments(fn)
+    mut = mutated(fn)
+    a = fn.args
+    params = {x.arg for x in list(a.posonlyargs) + list(a.args) + list(a.kwonlyargs)}
+    inside = {id(n) for s in stmts for n in ast.walk(s)}
+    out, done = [], set()
+
+    def need(nodes, depth=0):
+        for n in nodes:
+            for x in ast.walk(n):
+                if isinstance(x, ast.Name) and isinstance(x.ctx, ast.Load) and x.id not in done and x.id not in params and x.id not in mut and len(asg.get(x.id, [])) == 1:
+                    v = asg[x.id][0]
+                    if (isinstance(v, ast.Constant) and isinstance(v.value, str) and v.value.startswith("<")) or id(v) in inside or depth > 6:
+                        continue
+                    done.add(x.id)
+                    need([v], depth + 1)
+                    st = ast.Assign(targets=[ast.Name(id=x.id, ctx=ast.Store())], value=v)
+                    ast.copy_location(st, v)
+                    ast.fix_missing_locations(st)
+                    out.append(st)
+    need(stmts)
+    return out
+
+
+def truth_in(v: dict, x):
+    """truth value of a symbolic boolean under a valuation, None if undecided"""
+    if isinstance(x, bool):
+        return x
+    if isinstance(x, CmpSym):
+        return v.get(f"{path_of(x.left)} {_OPS[x.op]} {path_of(x.right)}")
+    if isinstance(x, Sym):
+        return v.get(f"bool({x.path})")
+    return None
+
+
+# ------------------------------------------------------------------------------------------------------------
+# helpers shared by the rules
+# ------------------------------------------------------------------------------------------------------------
 
 def _anc(n, stop):
     p = getattr(n, "_parent", None)
@@ -295,15 +587,1122 @@ def _anc(n, stop):
         p = getattr(p, "_parent", None)
 
 
+def _cache(ctx: Ctx, key: str, make):
+    store = ctx.__dict__.setdefault("_c05_cache", {})
+    if key not in store:
+        try:
+            store[key] = make()
+        except Unsupported as e:
+            store[key] = e
+    return store[key]
+
+
+def _pos_params(fi) -> list[str]:
+    a = fi.node.args
+    ps = [x.arg for x in list(a.posonlyargs) + list(a.args)]
+    return ps[1:] if fi.cls and not fi.is_static and ps else ps
+
+
+def _bound(fi, args, kw) -> dict:
+    """positional + keyword arguments of a recorded call mapped to the callee's parameter names"""
+    out = dict(zip(_pos_params(fi), args))
+    out.update(kw)
+    return out
+
+
+def _same(a, b) -> bool:
+    return path_of(a) == path_of(b)
+
+
+def _is_init(v, name: str | None = None) -> bool:
+    return isinstance(v, Init) and (name is None or v.path == name)
+
+
+def _cell(v):
+    """(frame, column, row) if the symbolic value is one cell of a data frame, else None"""
+    if isinstance(v, SubSym):
+        b = v.base
+        if isinstance(b, SubSym):                               # df[col][row]
+            return b.base, b.key, v.key
+        if isinstance(b, CallSym) and b.meth == "row" and b.args:     # df.row(row, named=True)[col]
+            return b.recv, v.key, b.args[0]
+        if isinstance(v.key, tuple) and len(v.key) == 2:        # df[row, col]
+            return v.base, v.key[1], v.key[0]
+    if isinstance(v, CallSym) and v.meth == "item" and len(v.args) == 2:      # df.item(row, col)
+        return v.recv, v.args[1], v.args[0]
+    return None
+
+
+def _divider_atom(key: str, rec) -> tuple[Any, str, bool] | None:
+    """(value compared, literal, True if the atom being True means 'is a divider') for a comparison of a value with a
+    dash-only literal"""
+    if rec is None or rec[0] not in (ast.Eq, ast.NotEq):
+        return None
+    op, l, r = rec
+    lit, other = (r, l) if isinstance(r, str) else ((l, r) if isinstance(l, str) else (None, None))
+    if not isinstance(lit, str) or len(lit) < 3 or set(lit) != {"-"}:
+        return None
+    return other, lit, op is ast.Eq
+
+
+def _unstr(v):
+    return v.args[0] if isinstance(v, CallSym) and v.meth == "str" and v.recv is None and len(v.args) == 1 else v
+
+
+# ------------------------------------------------------------------------------------------------------------
+# R05.1 / R05.6 (pagination side): what the strategies attach to a page
+# ------------------------------------------------------------------------------------------------------------
+
+_PAGINATE_WATCH = {"append", "_get_group_headers", "_detect_group_boundaries", "PageContext", "calculate_row_metadata",
+                   "PageBreakCalculator", "RTFPagination"}
+
+
+def _paginate_leaves(ctx: Ctx, short: str):
+    def make():
+        fi = ctx.pm.func(short)
+        dt = LDT(ctx.pm, watch=_PAGINATE_WATCH)
+        return fi, dt, run_block(dt, fi.node.body, sym_env(fi), fi)
+    return _cache(ctx, "paginate:" + short, make)
+
+
+def _pages_of_leaf(eff):
+    """[(page symbol, constructor kwargs, [effects concerning that page])] for the pages appended to the result"""
+    ctors = {e[6].path: e for e in eff if e[0] == "call" and e[1] == "PageContext"}
+    appended = [e[3][0] for e in eff if e[0] == "call" and e[1] == "append" and e[3] and isinstance(e[3][0], Sym) and e[3][0].path in ctors]
+    out = []
+    for p in appended:
+        stores = {e[2]: e[3] for e in eff if e[0] == "store" and isinstance(e[1], Sym) and e[1].path == p.path}
+        out.append((p, dict(ctors[p.path][4]), stores))
+    return out
+
+
+def _page_span(data):
+    """(frame, first row, length) of the slice a page's data is"""
+    if isinstance(data, CallSym) and data.meth == "slice" and len(data.args) >= 2:
+        return data.recv, data.args[0], data.args[1]
+    if isinstance(data, SliceSym) and data.lo is not None and data.hi is not None:
+        a, b = lin_of(data.hi), lin_of(data.lo)
+        return data.base, data.lo, (a, b)
+    return None
+
+
+def r05_1(ctx: Ctx) -> None:
+    pm = ctx.pm
+    gh = pm.func("PageByStrategy._get_group_headers")
+    gb = pm.func("PageByStrategy._detect_group_boundaries")
+    for short in ("PageByStrategy.paginate", "SublineStrategy.paginate"):
+        got = _paginate_leaves(ctx, short)
+        if isinstance(got, Exception):
+            ctx.gap("R05.1", f"{short}: could not be interpreted ({got})")
+            continue
+        fi, dt, leaves = got
+        seen_h = seen_b = 0
+        for v, env, eff, outcome in leaves:
+            for page, kw, stores in _pages_of_leaf(eff):
+                span = _page_span(kw.get("data"))
+                hcalls = [e for e in eff if e[0] == "call" and e[1] == "_get_group_headers" and isinstance(stores.get("pageby_header_info"), Sym)
+                          and stores["pageby_header_info"].path == e[6].path]
+                bvals = [x for x in parts(stores.get("group_boundaries")) if isinstance(x, CallSym) and x.meth == "_detect_group_boundaries"]
+                bcalls = [e for e in eff if e[0] == "call" and e[1] == "_detect_group_boundaries" and any(e[6].path == x.path for x in bvals)]
+                if (hcalls or bcalls) and span is None:
+                    ctx.gap("R05.1", f"{short}: the rows of a page (PageContext data=...) are not recognisable as a slice of the table")
+                    continue
+                for e in hcalls:
+                    a = _bound(gh, e[3], e[4])
+                    seen_h += 1
+                    df, row = a.get(_pos_params(gh)[0]), a.get(_pos_params(gh)[2])
+                    if not (_same(df, span[0]) and _same(row, span[1])):
+                        ctx.violation("R05.1", short, "group headers args " + ",".join(path_of(x)[:60] for x in e[3]), fi.where(e[5]),
+                                      f"{short}: heading values are read from `{path_of(df)[:60]}` row `{path_of(row)[:80]}`, but the page's first row is "
+                                      f"`{path_of(span[0])[:60]}` row `{path_of(span[1])[:80]}`")
+                for e in bcalls:
+                    a = _bound(gb, e[3], e[4])
+                    seen_b += 1
+                    ps = _pos_params(gb)
+                    df, s, en = a.get(ps[0]), a.get(ps[2]), a.get(ps[3])
+                    ln = span[2]
+                    ok_len = None
+                    ls, le = lin_of(s), lin_of(en)
+                    if isinstance(ln, tuple):
+                        ok_len = ls is not None and le is not None and lin_sub(ln[0], ln[1]) == lin_sub(lin_sub(le, ls), {"": -1})
+                    elif lin_of(ln) is not None and ls is not None and le is not None:
+                        ok_len = lin_of(ln) == lin_sub(lin_sub(le, ls), {"": -1})
+                    if not (_same(df, span[0]) and _same(s, span[1])) or ok_len is False:
+                        ctx.violation("R05.1", short, "boundaries args " + ",".join(path_of(x)[:60] for x in e[3]), fi.where(e[5]),
+                                      f"{short}: in-page boundaries are searched in rows `{path_of(s)[:70]}`..`{path_of(en)[:70]}` of `{path_of(df)[:40]}`, "
+                                      "which is not the page's own [first row, last row]")
+                    elif ok_len is None:
+                        ctx.gap("R05.1", f"{short}: length of the page slice not comparable with the boundary search range")
+        ctx.instance("R05.1", fi.where(), f"{short}: {len(leaves)} paths interpreted; heading info attached from the page's first row on {seen_h} path(s), "
+                     f"boundaries of the page's own row range on {seen_b} path(s)")
+        if not seen_h or not seen_b:
+            ctx.gap("R05.1", f"{short}: no path on which page_by heading info and group boundaries are attached to an appended page was re-identified")
+    _r05_1_headers(ctx)
+    _r05_1_boundaries(ctx)
+
+
+def _header_leaves(ctx: Ctx):
+    def make():
+        fi = ctx.pm.func("PageByStrategy._get_group_headers")
+        dt = LDT(ctx.pm)
+        return fi, dt, run_block(dt, fi.node.body, sym_env(fi), fi)
+    return _cache(ctx, "headers", make)
+
+
+def _r05_1_headers(ctx: Ctx) -> None:
+    got = _header_leaves(ctx)
+    if isinstance(got, Exception):
+        ctx.gap("R05.1", f"_get_group_headers could not be interpreted ({got})")
+        return
+    g, dt, leaves = got
+    ps = _pos_params(g)
+    if len(ps) < 3:
+        ctx.gap("R05.1", "_get_group_headers: signature (df, columns, start_row) not recognised")
+        return
+    p_df, p_cols, p_row = ps[0], ps[1], ps[2]
+    n = 0
+    for v, env, eff, outcome in leaves:
+        ret = outcome[1] if isinstance(outcome, tuple) and outcome[0] == "return" else None
+        if not isinstance(ret, dict) or not isinstance(ret.get("group_values"), dict) or not ret["group_values"]:
+            continue
+        for k, val in ret["group_values"].items():
+            n += 1
+            c = _cell(val)
+            src = None
+            for x in parts(val):
+                if isinstance(x, ElemSym):
+                    src = x.source
+                    break
+            ctx.instance("R05.1", g.where(), f"_get_group_headers: heading value `{path_of(val)[:80]}` for key `{str(k)[:40]}`")
+            if c is not None:
+                frame, col, row = c
+                if not _is_init(row, p_row) and _is_init(frame, p_df):
+                    ctx.violation("R05.1", g.short, "heading source row " + path_of(row)[:60], g.where(),
+                                  f"group heading values are read from row `{path_of(row)[:60]}`, not from the page's first row `{p_row}`")
+                elif not _is_init(frame, p_df):
+                    ctx.gap("R05.1", f"_get_group_headers: frame `{path_of(frame)[:40]}` the heading values are read from is not the frame parameter")
+                if isinstance(col, ElemSym) and not _is_init(strip_sym(col.source), p_cols):
+                    _order_source(ctx, g, col.source, p_df, p_cols)
+                elif not isinstance(col, ElemSym):
+                    ctx.gap("R05.1", f"_get_group_headers: column `{path_of(col)[:40]}` of a heading value is not an element of `{p_cols}`")
+            elif src is not None and not _is_init(strip_sym(src), p_cols):
+                _order_source(ctx, g, src, p_df, p_cols)
+            else:
+                ctx.gap("R05.1", f"_get_group_headers: heading value `{path_of(val)[:60]}` is not recognisable as a cell of the page's first row")
+    if not n:
+        ctx.gap("R05.1", "_get_group_headers: no path returning non-empty 'group_values' was re-identified")
+
+
+def strip_sym(v):
+    """peel list()/tuple()/enumerate-free conversions of a symbolic iterable that keep its order"""
+    while isinstance(v, CallSym) and v.recv is None and v.meth in ("list", "tuple", "iter") and v.args:
+        v = v.args[0]
+    return v
+
+
+def _order_source(ctx: Ctx, g, src, p_df: str, p_cols: str) -> None:
+    roots = [x for x in parts(src) if isinstance(x, Init)]
+    if any(x.path == p_df for x in roots) and not any(x.path == p_cols for x in roots):
+        ctx.violation("R05.1", g.short, "heading source", g.where(),
+                      f"the heading levels are enumerated from `{path_of(src)[:70]}` (the frame's own column order), not level by level in `{p_cols}` order: "
+                      "outer levels are no longer guaranteed to come before inner ones")
+    elif isinstance(src, CallSym) and src.recv is None and src.meth in ("sorted", "reversed", "set", "frozenset") and any(x.path == p_cols for x in roots):
+        ctx.violation("R05.1", g.short, "heading source", g.where(), f"the heading levels are enumerated from `{path_of(src)[:70]}`, not in `{p_cols}` declaration order")
+    else:
+        ctx.gap("R05.1", f"_get_group_headers: source `{path_of(src)[:60]}` of the heading levels not recognised")
+
+
+def _boundary_leaves(ctx: Ctx):
+    def make():
+        fi = ctx.pm.func("PageByStrategy._detect_group_boundaries")
+        dt = LDT(ctx.pm, watch={"append"})
+        return fi, dt, run_block(dt, fi.node.body, sym_env(fi), fi)
+    return _cache(ctx, "boundaries", make)
+
+
+def _boundary_records(leaves):
+    """[(valuation, boundary dict)] for every path that reports a boundary"""
+    out = []
+    for v, env, eff, outcome in leaves:
+        for e in eff:
+            if e[0] == "call" and e[1] == "append" and e[3] and isinstance(e[3][0], dict) and "page_relative_row" in e[3][0]:
+                out.append((v, e[3][0], e[5]))
+        ret = outcome[1] if isinstance(outcome, tuple) and outcome[0] == "return" else None
+        if isinstance(ret, list) and not any(e[0] == "call" and e[1] == "append" for e in eff):
+            for d in ret:
+                if isinstance(d, dict) and "page_relative_row" in d:
+                    out.append((v, d, None))
+    return out
+
+
+def _r05_1_boundaries(ctx: Ctx) -> None:
+    got = _boundary_leaves(ctx)
+    if isinstance(got, Exception):
+        ctx.gap("R05.1", f"_detect_group_boundaries could not be interpreted ({got})")
+        return
+    b, dt, leaves = got
+    ps = _pos_params(b)
+    if len(ps) < 4:
+        ctx.gap("R05.1", "_detect_group_boundaries: signature (df, columns, start_row, end_row) not recognised")
+        return
+    p_df, p_cols, p_s, p_e = ps[:4]
+    recs = _boundary_records(leaves)
+    if not recs:
+        ctx.gap("R05.1", "_detect_group_boundaries: no path reporting a boundary ({'page_relative_row': ...}) was re-identified")
+        return
+    for v, d, node in recs:
+        rel, ab = lin_of(d.get("page_relative_row")), lin_of(d.get("absolute_row")) if "absolute_row" in d else None
+        elem = next((x for x in parts(d.get("page_relative_row")) if isinstance(x, ElemSym)), None)
+        ctx.instance("R05.1", b.where(node), f"boundary: page_relative_row = {path_of(d.get('page_relative_row'))[:80]}; absolute_row = {path_of(d.get('absolute_row'))[:80]}")
+        if rel is None:
+            ctx.gap("R05.1", "_detect_group_boundaries: page_relative_row is not a linear expression")
+            continue
+        if ab is not None and lin_sub(ab, rel) != {p_s: 1}:
+            ctx.violation("R05.1", b.short, f"page_relative_row {path_of(d['page_relative_row'])[:60]}", b.where(node),
+                          f"a boundary's page-relative row is not its absolute row - {p_s} (absolute_row - page_relative_row = {lin_sub(ab, rel)})")
+        # rows examined: the new group's first row runs over start_row + 1 .. end_row
+        if elem is None or not isinstance(elem.source, RangeSym):
+            if "concat_str" not in _concat_evidence(dt, v, d):
+                ctx.gap("R05.1", f"_detect_group_boundaries: rows examined (`{path_of(elem.source)[:60] if elem is not None else '?'}`) are not a range over the page")
+            continue
+        k = dict(rel)
+        if k.pop(elem.path, None) != 1:
+            ctx.gap("R05.1", "_detect_group_boundaries: page_relative_row is not (row index + constant)")
+            continue
+        lo, hi = lin_of(elem.source.lo), lin_of(elem.source.hi)
+        if lo is None or hi is None:
+            ctx.gap("R05.1", "_detect_group_boundaries: range bounds are not linear")
+            continue
+        first = lin_sub(lo, {kk: -c for kk, c in k.items()})          # first page-relative row reported
+        last = lin_sub(lin_sub(hi, {kk: -c for kk, c in k.items()}), {"": 1})
+        if first != {"": 1} or last != lin_sub({p_e: 1}, {p_s: 1}):
+            ctx.violation("R05.1", b.short, "boundary range", b.where(node),
+                          f"boundaries are reported for page-relative rows {first}..{last}; every row 1..{p_e}-{p_s} of the page must be compared with the row above it")
+        # extra conditions on the row index must be implied by the range
+        for key, val in v.items():
+            rec = dt.cmp.get(key)
+            if rec is None or rec[0] not in (ast.Lt, ast.LtE, ast.Gt, ast.GtE):
+                continue
+            a, c = lin_of(rec[1]), lin_of(rec[2])
+            if a is None or c is None:
+                continue
+            diff = lin_sub(a, c)                     # diff OP 0
+            coef = diff.get(elem.path)
+            if not coef:
+                continue
+            op = rec[0]
+            if not val:
+                op = {ast.Lt: ast.GtE, ast.LtE: ast.Gt, ast.Gt: ast.LtE, ast.GtE: ast.Lt}[op]
+            upper = op in (ast.Lt, ast.LtE)
+            at_max = (coef > 0) == upper             # the binding end of the range
+            ext = lin_sub(hi, {"": 1}) if at_max else lo
+            rest = {kk: cc for kk, cc in diff.items() if kk != elem.path}
+            worst = lin_sub(rest, {kk: -coef * cc for kk, cc in ext.items()})
+            if set(worst) <= {""}:
+                if not _cmp(op(), worst.get("", 0), 0):
+                    ctx.violation("R05.1", b.short, "boundary range restricted by " + key[:60], b.where(node),
+                                  f"the condition `{key[:80]}` excludes rows of the page from boundary detection")
+            else:
+                ctx.gap("R05.1", f"_detect_group_boundaries: condition `{key[:60]}` on the row index could not be shown to hold for the whole range")
+        # heading values of a boundary: the new group's first row
+        gv = d.get("group_values")
+        if isinstance(gv, dict) and gv and ab is not None:
+            for kk, cellv in gv.items():
+                c = _cell(cellv)
+                if c is None:
+                    ctx.gap("R05.1", f"_detect_group_boundaries: heading value `{path_of(cellv)[:60]}` of a boundary is not recognisable as a cell")
+                elif lin_of(c[2]) != ab and _is_init(c[0], p_df):
+                    ctx.violation("R05.1", b.short, "boundary values row " + path_of(c[2])[:50], b.where(node),
+                                  f"the heading values of a boundary are read from row `{path_of(c[2])[:60]}`, not from the new group's first row `{path_of(d.get('absolute_row'))[:60]}`")
+
+
+def _concat_evidence(dt: LDT, v: dict, d: dict) -> set[str]:
+    """names of string-concatenating calls the decision 'a boundary is reported here' depends on"""
+    ev: set[str] = set()
+    vals = [d.get("page_relative_row"), d.get("absolute_row")]
+    for key in v:
+        rec = dt.cmp.get(key)
+        if rec is not None:
+            vals += [rec[1], rec[2]]
+    for x in vals:
+        ev |= called(x) & {"concat_str", "join", "format"}
+    return ev
+
+
+# ------------------------------------------------------------------------------------------------------------
+# R05.7 / R05.4: one boundary of PageRenderer._render_body, one level of its heading loop
+# ------------------------------------------------------------------------------------------------------------
+
+_BODY_WATCH = {"_encode", "encode_spanning_row", "update", "extend", "append"}
+
+
+def _has_call(node: ast.AST, name: str) -> bool:
+    return any(isinstance(c, ast.Call) and dotted(c.func).split(".")[-1] == name for c in ast.walk(node))
+
+
+def _body_analysis(ctx: Ctx):
+    """interpret one iteration of the boundary loop (level loop skipped) and one iteration of the level loop"""
+    def make():
+        pm = ctx.pm
+        fi = pm.func("PageRenderer._render_body")
+        fn = fi.node
+        loops = [n for n in walk_no_nested(fn) if isinstance(n, ast.For) and any(x.endswith("group_boundaries") for x in ast_leaves(resolve(n.iter, fn)))]
+        if len(loops) != 1:
+            return {"gap": f"_render_body: {len(loops)} loops over the page's group_boundaries (1 expected)"}
+        lp = loops[0]
+        levels = [n for n in ast.walk(lp) if isinstance(n, ast.For) and n is not lp and _has_call(n, "encode_spanning_row")]
+        levels = [n for n in levels if not any(m is not n and any(x is n for x in ast.walk(m)) for m in levels)]      # outermost
+        if len(levels) != 1:
+            return {"gap": f"_render_body: {len(levels)} loops emitting spanning rows inside the boundary loop (1 expected)", "fi": fi, "lp": lp}
+        level = levels[0]
+        dt = LDT(pm, watch=_BODY_WATCH, skip_loops=[level])
+        outer = run_block(dt, temps_for(fn, lp.body) + lp.body, sym_env(fi), fi)
+        snaps = [e[2] for v, env, eff, out in outer for e in eff if e[0] == "loop"]
+        res = {"fi": fi, "lp": lp, "level": level, "dt": dt, "outer": outer, "snaps": snaps}
+        body_names = set()
+        for s in level.body:
+            for t in ast.walk(s):
+                if isinstance(t, ast.Name) and isinstance(t.ctx, ast.Store):
+                    body_names.add(t.id)
+        res["entries"] = [{n: s.get(n) for n in body_names if n in s} for s in snaps]
+        for snap in snaps:
+            entry = {n: snap[n] for n in body_names if n in snap}
+
+            def env0(snap=snap, entry=entry):
+                e = dict(snap)
+                for n in entry:
+                    e[n] = Init(n)
+                return e
+            dt2 = LDT(pm, watch=_BODY_WATCH)
+            inner = run_block(dt2, [level], env0, fi)
+            if any(e[0] == "iter" and e[1] is level and not (isinstance(e[2], (list, tuple)) and not e[2]) for v, env, eff, out in inner for e in eff):
+                res.update({"dt2": dt2, "inner": inner, "entry": entry})
+                break
+        return res
+    return _cache(ctx, "body", make)
+
+
+def _rel_row(v) -> bool:
+    return isinstance(v, SubSym) and v.key == "page_relative_row"
+
+
+def r05_7(ctx: Ctx) -> None:
+    _r05_7_compare(ctx)
+    a = _body_analysis(ctx)
+    if isinstance(a, Exception):
+        ctx.gap("R05.7", f"_render_body could not be interpreted ({a})")
+        return
+    if "outer" not in a:
+        ctx.gap("R05.7", a["gap"])
+        if "lp" not in a:
+            return
+        # the heading loop was not re-identified: analyse the boundary iteration without skipping anything
+        fi, lp = a["fi"], a["lp"]
+        try:
+            dt = LDT(ctx.pm, watch=_BODY_WATCH)
+            outer = run_block(dt, temps_for(fi.node, lp.body) + lp.body, sym_env(fi), fi)
+        except Unsupported as e:
+            ctx.gap("R05.7", f"_render_body boundary loop could not be interpreted ({e})")
+            return
+    else:
+        fi, lp, dt, outer = a["fi"], a["lp"], a["dt"], a["outer"]
+    rb = fi
+    # the cursor: a loop-carried local that takes the boundary's page-relative row
+    cands = set()
+    for v, env, eff, out in outer:
+        for n, val in env.items():
+            if n in dt.reads and _rel_row(val):
+                cands.add(n)
+    if len(cands) != 1:
+        ctx.gap("R05.7", f"_render_body: the row cursor of the boundary loop was not re-identified (candidates {sorted(cands)})")
+        return
+    cur = cands.pop()
+    n_seg = 0
+    for v, env, eff, out in outer:
+        after = env.get(cur)
+        segs = [(i, e) for i, e in enumerate(eff) if e[0] == "call" and e[1] == "_encode"]
+        heads = [i for i, e in enumerate(eff) if e[0] == "loop" or (e[0] == "call" and e[1] == "encode_spanning_row")]
+        cond = ", ".join(f"{k[:50]}={x}" for k, x in sorted(v.items()))
+        if not _rel_row(after):
+            ctx.violation("R05.7", rb.short, "boundary loop cursor not advanced", rb.where(lp),
+                          f"on the path [{cond}] through one boundary the cursor `{cur}` is left at `{path_of(after)[:50]}` instead of the boundary's row: "
+                          "the rows before the boundary are rendered again with the next segment")
+        for i, e in segs:
+            n_seg += 1
+            seg = e[3][0] if e[3] else None
+            lo = hi = None
+            if isinstance(seg, SliceSym):
+                lo, hi = seg.lo, seg.hi
+            elif isinstance(seg, CallSym) and seg.meth == "slice" and len(seg.args) == 2 and lin_of(seg.args[0]) is not None and lin_of(seg.args[1]) is not None:
+                lo = seg.args[0]                                                   # frame.slice(offset, length)
+                hi = lin_sub(lin_of(seg.args[0]), {k: -c for k, c in lin_of(seg.args[1]).items()})
+            if lo is not None or hi is not None:
+                hi_ok = _rel_row(hi) or (isinstance(hi, dict) and len(hi) == 1 and list(hi.values()) == [1] and "page_relative_row" in next(iter(hi)))
+                if not (_is_init(lo, cur) and hi_ok):
+                    ctx.violation("R05.7", rb.short, f"boundary segment {path_of(seg)[:70]}", rb.where(e[5]),
+                                  f"the rows rendered before a boundary are `{seg.path[:80]}`; they must run from the cursor `{cur}` (as it was when the boundary is reached) "
+                                  "up to the boundary's page-relative row")
+            else:
+                ctx.gap("R05.7", f"_render_body: rows `{path_of(seg)[:60]}` rendered at a boundary are not a slice of the page")
+            if heads and min(heads) < i:
+                ctx.violation("R05.7", rb.short, "boundary loop order headings before segment", rb.where(e[5]),
+                              "at a boundary the headings of the new group are emitted before the rows that precede the boundary")
+    ctx.instance("R05.7", rb.where(lp), f"one boundary iteration: {len(outer)} paths, cursor `{cur}` advanced to the boundary row on every path, "
+                 f"{n_seg} segment emission(s) from the old cursor, before the headings")
+    if not n_seg:
+        ctx.gap("R05.7", "_render_body: no path renders the rows before a boundary (page_attrs._encode of a slice)")
+
+
+def _r05_7_compare(ctx: Ctx) -> None:
+    got = _boundary_leaves(ctx)
+    if isinstance(got, Exception):
+        ctx.gap("R05.7", f"_detect_group_boundaries could not be interpreted ({got})")
+        return
+    b, dt, leaves = got
+    recs = _boundary_records(leaves)
+    if not recs:
+        ctx.gap("R05.7", "_detect_group_boundaries: no path reporting a boundary was re-identified")
+        return
+    n_ok = 0
+    for v, d, node in recs:
+        ab = lin_of(d.get("absolute_row")) if "absolute_row" in d else None
+        if ab is None and lin_of(d.get("page_relative_row")) is not None:
+            ps = _pos_params(b)
+            ab = lin_sub(lin_of(d["page_relative_row"]), {ps[2]: -1}) if len(ps) > 2 else None
+        found = False
+        for key, val in v.items():
+            rec = dt.cmp.get(key)
+            if rec is None or rec[0] not in (ast.Eq, ast.NotEq):
+                continue
+            l, r = rec[1], rec[2]
+            if isinstance(l, (dict, list, tuple)) and isinstance(r, (dict, list, tuple)) and type(l) is type(r) and len(l) == len(r) and len(l) > 0:
+                lv = list(l.values()) if isinstance(l, dict) else list(l)
+                rv = list(r.values()) if isinstance(r, dict) else list(r)
+            elif _cell(_unstr(l)) is not None and _cell(_unstr(r)) is not None and isinstance(_cell(_unstr(l))[1], ElemSym):
+                lv, rv = [l], [r]                    # one column of the two rows, for every column (any(...) / loop over the levels)
+            else:
+                continue
+            cl, cr = [_cell(_unstr(x)) for x in lv], [_cell(_unstr(x)) for x in rv]
+            if any(c is None for c in cl + cr):
+                continue
+            found = True
+            differ = val if rec[0] is ast.NotEq else not val
+            rows = sorted([tuple(sorted(lin_of(c[2]).items())) if lin_of(c[2]) is not None else None for c in (cl[0], cr[0])], key=str)
+            ctx.instance("R05.7", b.where(node), f"boundary reported when per-column values of rows `{path_of(cl[0][2])[:40]}` and `{path_of(cr[0][2])[:40]}` differ: {differ}")
+            if not differ:
+                ctx.violation("R05.7", b.short, "boundary comparison polarity", b.where(node), "a boundary is reported when consecutive rows have EQUAL group values")
+            elif ab is not None and None not in rows:
+                want = sorted([tuple(sorted(ab.items())), tuple(sorted(lin_sub(ab, {"": 1}).items()))], key=str)
+                if rows != want:
+                    ctx.violation("R05.7", b.short, "boundary comparison rows", b.where(node),
+                                  f"the rows compared (`{path_of(cl[0][2])[:40]}`, `{path_of(cr[0][2])[:40]}`) are not the boundary row and the row directly above it")
+                else:
+                    n_ok += 1
+        if not found:
+            ev = _concat_evidence(dt, v, d)
+            if ev:
+                ctx.violation("R05.7", b.short, "boundary comparison", b.where(node),
+                              f"group boundaries are found by comparing one concatenated key per row ({', '.join(sorted(ev))}) instead of comparing consecutive rows "
+                              "column by column: different value tuples can give the same key ('1'+'11' = '11'+'1'), so a boundary is missed")
+            else:
+                ctx.gap("R05.7", "_detect_group_boundaries: the comparison that decides a boundary was not re-identified")
+    if n_ok:
+        ctx.instance("R05.7", b.where(), f"boundary detection compares per-column values of consecutive rows on {n_ok} path(s)")
+
+
+def r05_4(ctx: Ctx) -> None:
+    a = _body_analysis(ctx)
+    if isinstance(a, Exception):
+        ctx.gap("R05.4", f"_render_body could not be interpreted ({a})")
+    elif "inner" not in a:
+        ctx.gap("R05.4", a.get("gap") or "_render_body: the heading loop is not reached on any path through a boundary")
+    else:
+        _level_loop(ctx, a)
+    _page_top(ctx)
+
+
+def _level_loop(ctx: Ctx, a: dict) -> None:
+    fi, lp, level, dt2, inner, outer = a["fi"], a["lp"], a["level"], a["dt2"], a["inner"], a["outer"]
+    fn = fi.node
+    # level order
+    it = resolve(level.iter, fn)
+    if isinstance(it, ast.Call) and dotted(it.func) == "enumerate" and it.args:
+        it = it.args[0]
+    if isinstance(it, ast.BoolOp) and isinstance(it.op, ast.Or):
+        it = it.values[0]
+    inner_it = strip_wrappers(it)
+    plain = strip_wrappers(it, names=("list", "tuple", "iter"))
+    src = ast_leaves(inner_it)
+    if any(x.endswith(".page_by") for x in src):
+        if plain is not inner_it and not isinstance(plain, (ast.Attribute, ast.Name)):
+            ctx.violation("R05.4", fi.short, "level order " + unparse(it)[:60], fi.where(level), "levels are not visited in page_by declaration order (outer before inner)")
+    else:
+        ctx.gap("R05.4", f"_render_body: the heading loop iterates `{unparse(it)[:60]}`, not recognisably the page_by levels in declaration order")
+    # classify the atoms of one level iteration
+    outer_targets = {t.id for t in ast.walk(lp.target) if isinstance(t, ast.Name)}
+
+    def mentions_level(x) -> bool:
+        return any(isinstance(p, ElemSym) and p.path.startswith("∀" + unparse(level.target)) for p in parts(x))
+    flags = sorted({rec[1].path for k, rec in dt2.cmp.items() if rec[0] == "truth" and isinstance(rec[1], Init) and rec[1].path in a["entry"]})
+    n_rows = 0
+    new_side = old_side = None
+    emitted_any = False
+    for v, env, eff, out in inner:
+        iters = [e for e in eff if e[0] == "iter" and e[1] is level]
+        if iters and isinstance(iters[0][2], (list, tuple)) and not iters[0][2]:
+            continue                                   # no levels at all
+        emits = [e for e in eff if e[0] == "call" and e[1] == "encode_spanning_row"]
+        emitted_any = emitted_any or bool(emits)
+        none_val = changed = None
+        for key, val in v.items():
+            rec = dt2.cmp.get(key)
+            if rec is None:
+                continue
+            if rec[0] == "is None" and mentions_level(rec[1]):
+                none_val = val
+            elif rec[0] in (ast.Eq, ast.NotEq) and mentions_level(rec[1]) and mentions_level(rec[2]) and _divider_atom(key, rec) is None:
+                changed = val if rec[0] is ast.NotEq else not val
+                sides = [rec[1], rec[2]]
+                ns = [s for s in sides if any(isinstance(p, Init) and p.path in outer_targets for p in parts(s))]
+                if len(ns) == 1:
+                    new_side = ns[0]
+                    old_side = sides[1] if sides[0] is ns[0] else sides[0]
+        if not flags:
+            continue
+        if len(flags) > 1:
+            continue
+        f = flags[0]
+        F = v.get(f"bool({f})")
+        fo = env.get(f)
+        flag_out = F if _is_init(fo, f) else truth_in(v, fo)
+        n_rows += 1
+        if none_val:
+            if emits:
+                ctx.violation("R05.4", fi.short, "heading for a missing value", fi.where(level), "a level whose value is missing at the boundary still gets a heading row")
+            continue
+        if F is None:
+            Fs = [False, True]
+        else:
+            Fs = [F]
+        chs = [changed] if changed is not None else [False, True]
+        exp = {(c or x) for c in chs for x in Fs}
+        if len(exp) > 1:
+            # the decision did not consult the change of this level or the carried flag although the outcome depends on it
+            ctx.violation("R05.4", fi.short, "level guard not (changed or force_render)", fi.where(level),
+                          f"on the path [{_fmt(v)}] a level's heading is {'emitted' if emits else 'skipped'} without looking at "
+                          f"{'whether its value changed' if changed is None else 'whether a higher level changed'}")
+            continue
+        want = exp.pop()
+        if bool(emits) != want:
+            ctx.violation("R05.4", fi.short, "level guard not (changed or force_render)", fi.where(level),
+                          f"a level's heading is {'emitted' if emits else 'not emitted'} when changed={changed} and higher-level-changed={F}; "
+                          "it must be emitted exactly when its value changed or a higher level changed")
+        if flag_out is None:
+            ctx.gap("R05.4", f"_render_body: value `{path_of(fo)[:40]}` of the carried flag `{f}` after a level is not a decided boolean")
+        elif flag_out != want:
+            ctx.violation("R05.4", fi.short, "sticky flag", fi.where(level),
+                          f"after a level with changed={changed} and higher-level-changed={F} the carried flag `{f}` is {flag_out}; it must stay True once a level changed "
+                          "(otherwise inner headings are skipped when an outer level changes but inner values repeat)")
+    if not flags:
+        consulted = " ".join(k for v, env, eff, out in inner for k in v)
+        carried = {n for n in dt2.reads if n in a["entry"]}
+        if emitted_any and not carried and "any(" not in consulted and "[:" not in consulted:
+            ctx.violation("R05.4", fi.short, "level loop", fi.where(level),
+                          "the heading loop carries no state from one level to the next (and consults no aggregate over the higher levels): whether a level's heading is "
+                          "emitted cannot depend on a change of every higher level, so inner headings are skipped when an outer level changes but inner values repeat")
+        else:
+            ctx.gap("R05.4", "_render_body: how the heading loop remembers that a higher level changed was not re-identified")
+    elif len(flags) > 1:
+        ctx.gap("R05.4", f"_render_body: several carried flags {flags} in the heading loop")
+    else:
+        f = flags[0]
+        for ent in a["entries"]:
+            e0 = ent.get(f)
+            if e0 is False:
+                continue
+            if isinstance(e0, Init) or e0 is True:
+                ctx.violation("R05.4", fi.short, "sticky flag", fi.where(level),
+                              f"the carried flag `{f}` is not reset to False when a boundary is reached (it enters the level loop as `{path_of(e0)}`)")
+            else:
+                ctx.gap("R05.4", f"_render_body: entry value `{path_of(e0)[:40]}` of the carried flag `{f}` not decided")
+        ctx.instance("R05.4", fi.where(level), f"level loop: {n_rows} decision rows over (value missing, value changed, flag `{f}`); heading emitted <=> changed or flag; flag' = changed or flag")
+    # heading text
+    for v, env, eff, out in inner:
+        for e in eff:
+            if e[0] == "call" and e[1] == "encode_spanning_row":
+                txt = e[4].get("text", e[3][0] if e[3] else None)
+                t = _unstr(txt)
+                if new_side is not None and _same(t, _unstr(new_side)):
+                    continue
+                if old_side is not None and _same(t, _unstr(old_side)):
+                    ctx.violation("R05.4", fi.short, "heading text", fi.where(e[5]), "the heading shows the previous value of the level, not the new one")
+                elif isinstance(t, ElemSym):
+                    ctx.violation("R05.4", fi.short, "heading text", fi.where(e[5]), "the heading shows the level's column name, not its new value")
+                elif new_side is None:
+                    ctx.gap("R05.4", "_render_body: the new value of a level was not re-identified; heading text not checked")
+                else:
+                    ctx.gap("R05.4", f"_render_body: heading text `{path_of(txt)[:60]}` is not recognisably the new value `{path_of(new_side)[:60]}`")
+    # remembered values: updated after the level loop, initialised from the page-top heading values
+    if old_side is not None:
+        elem_inits = {p.path for x in parts(old_side) if isinstance(x, ElemSym) for p in parts(x) if isinstance(p, Init)}
+        roots = sorted({p.path for p in parts(old_side) if isinstance(p, Init)} - elem_inits - outer_targets)
+        if len(roots) == 1:
+            root = roots[0]
+            for v, env, eff, out in outer:
+                li = [i for i, e in enumerate(eff) if e[0] == "loop"]
+                if not li:
+                    continue
+                upd = [i for i, e in enumerate(eff) if (e[0] == "call" and e[1] in ("update", "augBitOr") and _is_init(e[2], root)) or (e[0] == "setitem" and _is_init(e[1], root))]
+                rebound = not _is_init(env.get(root), root)
+                if not upd and not rebound:
+                    ctx.violation("R05.4", fi.short, "state update", fi.where(lp), f"the remembered group values `{root}` are not updated after a boundary")
+                elif upd and min(upd) < li[0]:
+                    ctx.violation("R05.4", fi.short, "state update before headings", fi.where(lp), f"`{root}` is updated before the levels are compared with it: no change is ever seen")
+            vals = assignments(fn).get(root, [])
+            if any("pageby_header_info" in unparse(x) for x in vals):
+                ctx.instance("R05.4", fi.where(), f"remembered values `{root}` start from the page-top heading values and are updated after each boundary")
+            elif vals and all(isinstance(x, ast.Dict) and not x.keys or (isinstance(x, ast.Call) and dotted(x.func) == "dict" and not x.args) for x in vals):
+                ctx.violation("R05.4", fi.short, "state init", fi.where(), "the remembered group values do not start from the page-top heading values")
+            else:
+                ctx.gap("R05.4", f"_render_body: initial value of the remembered group values `{root}` not recognised")
+        else:
+            ctx.gap("R05.4", f"_render_body: the remembered group values were not re-identified (roots {roots})")
+    elif flags:
+        ctx.gap("R05.4", "_render_body: the comparison 'value of this level changed' was not re-identified")
+
+
+def _fmt(v: dict) -> str:
+    return ", ".join(f"{k[:40]}={x}" for k, x in sorted(v.items()))
+
+
+def _page_top(ctx: Ctx) -> None:
+    pm = ctx.pm
+    r = pm.func("PageRenderer.render")
+    loops = [n for n in walk_no_nested(r.node) if isinstance(n, ast.For) and _has_call(n, "encode_spanning_row")]
+    loops = [n for n in loops if not any(m is not n and any(x is n for x in ast.walk(m)) for m in loops)]
+    if len(loops) != 1:
+        ctx.gap("R05.4", f"render: {len(loops)} loops emitting page-top spanning rows (1 expected)")
+        return
+    lp = loops[0]
+    try:
+        dt = LDT(pm, watch=_BODY_WATCH)
+        leaves = run_block(dt, temps_for(r.node, [lp]) + [lp], sym_env(r), r)
+    except Unsupported as e:
+        ctx.gap("R05.4", f"render: page-top heading loop could not be interpreted ({e})")
+        return
+    n = 0
+    for v, env, eff, out in leaves:
+        for e in eff:
+            if not (e[0] == "call" and e[1] == "encode_spanning_row"):
+                continue
+            n += 1
+            txt = e[4].get("text", e[3][0] if e[3] else None)
+            t = _unstr(txt)
+            elem = next((p for p in parts(t) if isinstance(p, ElemSym)), None)
+            srcs = [p for p in parts(elem.source)] if elem is not None else []
+            from_info = any(isinstance(p, SubSym) and p.key == "group_values" and "pageby_header_info" in p.path for p in srcs)
+            ctx.instance("R05.4", r.where(e[5]), f"page-top heading text `{path_of(txt)[:70]}`")
+            if not from_info:
+                ctx.gap("R05.4", f"render: page-top headings iterate `{path_of(elem.source)[:60] if elem is not None else '?'}`, not recognisably the page's pageby_header_info['group_values']")
+                continue
+            meth = elem.source.meth if isinstance(elem.source, CallSym) else None
+            if isinstance(t, SubSym) and t.base is elem and meth == "items":
+                if t.key == 0:
+                    ctx.violation("R05.4", r.short, "page-top headings", r.where(e[5]), "the page-top heading shows the level's column name, not the value of the page's first row")
+            elif t is elem and meth == "values":
+                pass
+            elif isinstance(t, SubSym) and t.key is elem:
+                pass
+            elif t is elem:
+                ctx.violation("R05.4", r.short, "page-top headings", r.where(e[5]), "the page-top heading shows the level's column name, not the value of the page's first row")
+            else:
+                ctx.gap("R05.4", f"render: page-top heading text `{path_of(txt)[:60]}` not recognised")
+    if not n:
+        ctx.gap("R05.4", "render: no path emits a page-top heading")
+
+
+# ------------------------------------------------------------------------------------------------------------
+# R05.2: 'spanning rows are shown' (two render sites) == 'page_by columns are removed' (prepare_dataframe)
+# ------------------------------------------------------------------------------------------------------------
+
+_PBR = ["column", "first_row"]
+
+
+def _config_table(dt: LDT, rows) -> dict | None:
+    """rows: [(valuation, happened)] -> {(new_page, pageby_row): happened on some path consistent with that setting};
+    None if an atom about new_page / pageby_row has a shape that cannot be evaluated"""
+    tbl = {}
+    for npg, pbr in itertools.product([True, False], _PBR):
+        hit = False
+        for v, happened in rows:
+            ok = True
+            for key, val in v.items():
+                rec = dt.cmp.get(key)
+                if ".new_page" in key or key.endswith("new_page)") or "pageby_row" in key:
+                    if rec is None:
+                        return None
+                    if rec[0] == "truth" and rec[1].path.endswith("new_page"):
+                        want = npg
+                    elif rec[0] == "is None":
+                        want = False
+                    elif rec[0] in _OPS and isinstance(rec[1], Sym) and rec[1].path.endswith("pageby_row") and not has_sym(rec[2]):
+                        want = _cmp(rec[0](), pbr, rec[2])
+                    elif rec[0] in _OPS and isinstance(rec[2], Sym) and rec[2].path.endswith("pageby_row") and not has_sym(rec[1]):
+                        want = _cmp(rec[0](), rec[1], pbr)
+                    elif rec[0] in (ast.Eq, ast.NotEq, ast.Is, ast.IsNot) and isinstance(rec[1], Sym) and rec[1].path.endswith("new_page") and isinstance(rec[2], bool):
+                        want = _cmp(rec[0](), npg, rec[2])
+                    else:
+                        return None
+                    if want != val:
+                        ok = False
+                        break
+            if ok and happened:
+                hit = True
+                break
+        tbl[(npg, pbr)] = hit
+    return tbl
+
+
+def _guard_rows(pm, fi, node):
+    """[(valuation, all guards of node hold)]"""
+    gs = [(resolve(t, fi.node), pol) for t, pol in guards(node, fi.node)]
+    dt = LDT(pm)
+    env = sym_env(fi)()
+
+    def run():
+        for t, pol in gs:
+            if dt.truth(dt.ev(t, dict(env))) != pol:
+                return False
+        return True
+    return dt, run_expr(dt, run)
+
+
+def r05_2(ctx: Ctx) -> None:
+    """shown(new_page, pageby_row) at render step 7 == at _render_body == columns removed in prepare_dataframe"""
+    pm = ctx.pm
+    tables = {}
+    for short in ("PageRenderer.render", "PageRenderer._render_body"):
+        fi = pm.func(short)
+        calls = [c for c in walk_no_nested(fi.node) if isinstance(c, ast.Call) and dotted(c.func).split(".")[-1] == "encode_spanning_row"]
+        if not calls:
+            ctx.gap("R05.2", f"{short}: no emission of a spanning row (encode_spanning_row) was re-identified")
+            continue
+        merged = None
+        for c in calls:
+            try:
+                dt, rows = _guard_rows(pm, fi, c)
+            except Unsupported as e:
+                ctx.gap("R05.2", f"{short}: conditions of the spanning-row emission could not be evaluated ({e})")
+                continue
+            tbl = _config_table(dt, rows)
+            if tbl is None:
+                ctx.gap("R05.2", f"{short}: a condition on new_page / pageby_row has an unrecognised form")
+                continue
+            merged = tbl if merged is None else {k: merged[k] or tbl[k] for k in tbl}
+        if merged is not None:
+            tables[short] = merged
+            ctx.instance("R05.2", fi.where(calls[0]), f"{short}: spanning rows can be shown <=> {_show_tbl(merged)}")
+    # removal of the page_by columns
+    p = pm.func("RTFEncodingService.prepare_dataframe_for_body_encoding")
+    fn = p.node
+
+    def is_removal(n: ast.AST) -> bool:
+        if isinstance(n, ast.Call) and isinstance(n.func, ast.Attribute) and n.func.attr in ("update", "add", "extend", "append", "union") and n.args:
+            return any(x.endswith(".page_by") for x in ast_leaves(n.args[0]))
+        if isinstance(n, ast.AugAssign):
+            return any(x.endswith(".page_by") for x in ast_leaves(n.value))
+        return False
+    idx = [i for i, s in enumerate(fn.body) if any(is_removal(n) for n in ast.walk(s))]
+    if not idx:
+        ctx.gap("R05.2", "prepare_dataframe_for_body_encoding: the statement that schedules the page_by columns for removal was not re-identified")
+    else:
+        try:
+            dt = LDT(pm, watch={"update", "add", "extend", "append", "union"})
+            leaves = run_block(dt, fn.body[:max(idx) + 1], sym_env(p), p)
+            rows = []
+            for v, env, eff, out in leaves:
+                removed = any(e[0] == "call" and e[1] in ("update", "add", "extend", "append", "union", "augBitOr", "augAdd") and e[3]
+                              and any(isinstance(x, Sym) and x.path.endswith(".page_by") for x in parts(e[3][0])) for e in eff)
+                rows.append((v, removed))
+            tbl = _config_table(dt, rows)
+            if tbl is None:
+                ctx.gap("R05.2", "prepare_dataframe_for_body_encoding: a condition on new_page / pageby_row has an unrecognised form")
+            else:
+                tables[p.short] = tbl
+                ctx.instance("R05.2", p.where(fn.body[idx[0]]), f"page_by columns removed <=> {_show_tbl(tbl)}")
+        except Unsupported as e:
+            ctx.gap("R05.2", f"prepare_dataframe_for_body_encoding could not be interpreted ({e})")
+    spec = {(n, r): (not n) or r != "column" for n, r in itertools.product([True, False], _PBR)}
+    for k, tbl in tables.items():
+        if tbl != spec:
+            diff = {kk: vv for kk, vv in tbl.items() if spec[kk] != vv}
+            ctx.violation("R05.2", k, f"predicate {diff}", pm.func(k).where(),
+                          f"{k}: 'page_by values are shown as spanning rows / their columns are removed' differs from `not new_page or pageby_row != 'column'` at {diff}; "
+                          "the three sites must agree or values vanish (column removed, no heading) or appear twice")
+    ctx.floor("R05.2", 3)
+
+
+def _show_tbl(t: dict) -> str:
+    return "{" + ", ".join(f"new_page={k[0]},{k[1]}: {v}" for k, v in sorted(t.items(), key=str)) + "}"
+
+
+# ------------------------------------------------------------------------------------------------------------
+# R05.3 / R05.5: dividers and the heading budget
+# ------------------------------------------------------------------------------------------------------------
+
+def _is_dash(x) -> bool:
+    return isinstance(x, ast.Constant) and isinstance(x.value, str) and len(x.value) >= 3 and set(x.value) == {"-"}
+
+
+def _divider_verdict(ctx: Ctx, rule: str, fi, where: str, dt: LDT, v: dict, value, what: str) -> None:
+    """`value` ends up as a heading / costs rows on the path with valuation v: it must have been tested to be no divider"""
+    seen = False
+    for key, val in v.items():
+        d = _divider_atom(key, dt.cmp.get(key))
+        if d is None or not _same(_unstr(d[0]), value):
+            continue
+        seen = True
+        if d[1] != DIVIDER:
+            continue                      # reported by the literal scan
+        if (val == d[2]):
+            ctx.violation(rule, fi.short, "divider filter inverted " + key[:60], where, f"{fi.short}: {what} exactly when its value IS the divider '{DIVIDER}' (`{key[:80]}` = {val})")
+    if not seen:
+        opaque = [k for k in v if k.startswith("bool(") and path_of(value) in k]
+        if opaque:
+            ctx.gap(rule, f"{fi.short}: whether a value is a divider is decided by `{opaque[0][:60]}`, which could not be evaluated")
+        else:
+            ctx.violation(rule, fi.short, "divider not filtered", where, f"{fi.short}: {what} without its value being compared with the divider '{DIVIDER}'")
+
+
+def r05_3(ctx: Ctx) -> None:
+    pm = ctx.pm
+    # 1. one literal everywhere
+    for fi in pm.iter_funcs():
+        for c in walk_no_nested(fi.node):
+            if isinstance(c, ast.Compare) and any(_is_dash(x) for x in [c.left] + c.comparators):
+                lit = next(x.value for x in [c.left] + c.comparators if _is_dash(x))
+                ctx.instance("R05.3", fi.where(c), f"{fi.short}: divider test `{unparse(c)}`")
+                if lit != DIVIDER:
+                    ctx.violation("R05.3", fi.short, "divider filter " + unparse(c), fi.where(c), f"{fi.short}: divider values are recognised by `{unparse(c)}`; all sites must use '{DIVIDER}'")
+    # 2. a divider never becomes a heading value
+    got = _header_leaves(ctx)
+    if isinstance(got, Exception):
+        ctx.gap("R05.3", f"_get_group_headers could not be interpreted ({got})")
+    else:
+        g, dt, leaves = got
+        for v, env, eff, outcome in leaves:
+            ret = outcome[1] if isinstance(outcome, tuple) and outcome[0] == "return" else None
+            if isinstance(ret, dict) and isinstance(ret.get("group_values"), dict):
+                for k, val in ret["group_values"].items():
+                    _divider_verdict(ctx, "R05.3", g, g.where(), dt, v, val, "a value becomes a page-top heading")
+    got = _boundary_leaves(ctx)
+    if isinstance(got, Exception):
+        ctx.gap("R05.3", f"_detect_group_boundaries could not be interpreted ({got})")
+    else:
+        b, dt, leaves = got
+        for v, d, node in _boundary_records(leaves):
+            if isinstance(d.get("group_values"), dict):
+                for k, val in d["group_values"].items():
+                    _divider_verdict(ctx, "R05.3", b, b.where(node), dt, v, val, "a value becomes a heading at a boundary")
+    # 3. ... and never costs a row
+    c = pm.func("PageBreakCalculator.calculate_row_metadata")
+    calls = [n for n in walk_no_nested(c.node) if isinstance(n, ast.Call) and dotted(n.func).split(".")[-1] == "_calculate_header_rows"]
+    rows = [lp for lp in walk_no_nested(c.node) if isinstance(lp, ast.For) and any(any(x is k for x in ast.walk(lp)) for k in calls)]
+    rows = [lp for lp in rows if not any(m is not lp and any(x is lp for x in ast.walk(m)) for m in rows)]
+    if not calls or len(rows) != 1:
+        ctx.gap("R05.3", "calculate_row_metadata: the per-row heading budget (_calculate_header_rows inside the row loop) was not re-identified")
+    else:
+        lp = rows[0]
+        skip = [n for n in ast.walk(lp) if isinstance(n, ast.For) and n is not lp and not _has_call(n, "_calculate_header_rows")
+                and not any(isinstance(x, ast.Compare) and any(_is_dash(y) for y in [x.left] + x.comparators) for x in ast.walk(n))]
+        try:
+            dt = LDT(pm, watch={"_calculate_header_rows"}, skip_loops=skip)
+            leaves = run_block(dt, temps_for(c.node, lp.body) + lp.body, sym_env(c), c)
+        except Unsupported as e:
+            ctx.gap("R05.3", f"calculate_row_metadata: row loop could not be interpreted ({e})")
+            leaves = []
+        n = 0
+        for v, env, eff, out in leaves:
+            for e in eff:
+                if not (e[0] == "call" and e[1] == "_calculate_header_rows"):
+                    continue
+                n += 1
+                text = e[3][0] if e[3] else e[4].get("text")
+                if isinstance(text, str):
+                    if text == "":
+                        ctx.violation("R05.3", c.short, "divider budget", c.where(e[5]), "a group whose values are all dividers (empty heading text) is still budgeted with heading rows")
+                    for key, val in v.items():
+                        d = _divider_atom(key, dt.cmp.get(key))
+                        if d is not None and d[1] == DIVIDER and val == d[2] and path_of(_unstr(d[0])) in text:
+                            ctx.violation("R05.3", c.short, "divider budget", c.where(e[5]), f"a divider value is part of the heading text that is budgeted (`{key[:70]}` = {val})")
+                elif isinstance(text, Sym):
+                    ctx.gap("R05.3", f"calculate_row_metadata: heading text `{text.path[:60]}` handed to _calculate_header_rows could not be evaluated")
+        ctx.instance("R05.3", c.where(lp), f"heading budget: {n} call(s) of _calculate_header_rows over {len(leaves)} paths of one row; never with an empty text or a divider value")
+        if not n and leaves:
+            ctx.gap("R05.3", "calculate_row_metadata: no path budgets heading rows")
+    ctx.floor("R05.3", 4)
+
+
+def r05_5_6(ctx: Ctx) -> None:
+    pm = ctx.pm
+    c = pm.func("PageBreakCalculator.calculate_row_metadata")
+    fn = c.node
+    from ..linform import linform, single_assign_env
+    env = single_assign_env(fn)
+    need = ("total_rows", "data_rows", "pageby_header_rows", "subline_header_rows")
+    dicts = [d for d in walk_no_nested(fn) if isinstance(d, ast.Dict) and {k.value for k in d.keys if isinstance(k, ast.Constant)} >= set(need)
+             and any(isinstance(x, (ast.For, ast.ListComp, ast.GeneratorExp)) for x in _anc(d, fn))]
+    if len(dicts) != 1:
+        ctx.gap("R05.5", f"calculate_row_metadata: {len(dicts)} row-metadata records with total_rows / data_rows / pageby_header_rows / subline_header_rows (1 expected)")
+    else:
+        d = dicts[0]
+        val = {k.value: x for k, x in zip(d.keys, d.values) if isinstance(k, ast.Constant)}
+        tot = linform(val["total_rows"], env)
+        want: dict = {}
+        for k in need[1:]:
+            for t, cf in linform(val[k], env).items():
+                want[t] = want.get(t, 0) + cf
+        want = {t: cf for t, cf in want.items() if cf}
+        ctx.instance("R05.5", c.where(d), f"row height includes its headings: total_rows = {tot}")
+        if tot != want:
+            ctx.violation("R05.5", c.short, "total_rows", c.where(d), f"total_rows = {tot} is not data_rows + pageby_header_rows + subline_header_rows = {want}: heading rows are not "
+                          "budgeted together with the group's first data row (a heading can be stranded at the bottom of a page)")
+        # heading rows are counted exactly at rows that start a group
+        for key, start in (("pageby_header_rows", "is_group_start"), ("subline_header_rows", "is_subline_start")):
+            tgt = val[key]
+            if not isinstance(tgt, ast.Name) or start not in val:
+                ctx.gap("R05.5", f"calculate_row_metadata: `{key}` / `{start}` of the row record not recognised")
+                continue
+            calls = [n for n in walk_no_nested(fn) if isinstance(n, ast.Call) and dotted(n.func).split(".")[-1] == "_calculate_header_rows" and tgt.id in _assigned_to(n, fn)]
+            if not calls:
+                ctx.gap("R05.5", f"calculate_row_metadata: the call that budgets `{key}` was not re-identified")
+                continue
+            sv = val[start]
+            atoms = set()
+            if isinstance(sv, ast.IfExp) and isinstance(sv.orelse, ast.Constant) and sv.orelse.value is False:
+                atoms = {unparse(sv.test), unparse(sv.body)}
+            elif isinstance(sv, ast.BoolOp) and isinstance(sv.op, ast.And):
+                atoms = {unparse(x) for x in sv.values}
+            else:
+                atoms = {unparse(sv)}
+            for n in calls:
+                ga = guard_atoms(guards(n, fn))
+                ctx.instance("R05.5", c.where(n), f"`{key}` budgeted under {sorted(ga)}; group start = {sorted(atoms)}")
+                if not atoms <= ga:
+                    ctx.violation("R05.5", c.short, "heading rows condition", c.where(n), f"`{key}` is budgeted under {sorted(ga)}, not exactly at rows that start a group ({sorted(atoms)})")
+    _r05_6(ctx)
+
+
+def _assigned_to(n, fn) -> list[str]:
+    for a in _anc(n, fn):
+        if isinstance(a, ast.Assign):
+            return [unparse(t) for t in a.targets]
+        if isinstance(a, ast.AnnAssign):
+            return [unparse(a.target)]
+        if isinstance(a, ast.stmt):
+            return []
+    return []
+
+
+def _r05_6(ctx: Ctx) -> None:
+    pm = ctx.pm
+    short = "SublineStrategy.paginate"
+    got = _paginate_leaves(ctx, short)
+    if isinstance(got, Exception):
+        ctx.gap("R05.6", f"{short}: could not be interpreted ({got})")
+    else:
+        s, dt, leaves = got
+        gh = pm.func("PageByStrategy._get_group_headers")
+        ps = _pos_params(gh)
+        cols = None
+        for v, env, eff, out in leaves:
+            for page, kw, stores in _pages_of_leaf(eff):
+                x = stores.get("subline_header")
+                if isinstance(x, CallSym) and x.meth == "_get_group_headers":
+                    cols = _bound(gh, x.args, dict(x.kw)).get(ps[1])
+        if cols is None:
+            ctx.gap("R05.6", f"{short}: no path stores the result of _get_group_headers as a page's subline_header")
+        else:
+            key = f"bool({path_of(cols)})"
+            n = 0
+            for v, env, eff, out in leaves:
+                for page, kw, stores in _pages_of_leaf(eff):
+                    if v.get(key) is False:
+                        continue
+                    n += 1
+                    x = stores.get("subline_header")
+                    if x is None:
+                        ctx.violation("R05.6", s.short, "subline header assignment", s.where(),
+                                      f"on the path [{_fmt({k: b for k, b in v.items() if len(k) < 80})}] a page is produced without the subline heading although subline_by is set: "
+                                      "not every page gets the subline heading of its own first row")
+                        continue
+                    span = _page_span(kw.get("data"))
+                    if not (isinstance(x, CallSym) and x.meth == "_get_group_headers") or span is None:
+                        ctx.gap("R05.6", f"{short}: subline_header `{path_of(x)[:50]}` / page rows not recognised")
+                        continue
+                    a = _bound(gh, x.args, dict(x.kw))
+                    if not (_same(a.get(ps[0]), span[0]) and _same(a.get(ps[2]), span[1])):
+                        ctx.violation("R05.6", s.short, "subline header row " + path_of(a.get(ps[2]))[:50], s.where(),
+                                      f"the subline heading of a page is read from row `{path_of(a.get(ps[2]))[:60]}`, not from the page's own first row `{path_of(span[1])[:60]}`")
+            ctx.instance("R05.6", s.where(), f"subline heading assigned from the page's first row on all {n} page-producing paths with subline_by set")
+    r = pm.func("PageRenderer.render")
+    calls = [n for n in walk_no_nested(r.node) if isinstance(n, ast.Call) and dotted(n.func).split(".")[-1] == "_generate_subline_header"]
+    if not calls:
+        ctx.gap("R05.6", "render: the call that renders the subline heading (_generate_subline_header) was not re-identified")
+    for call in calls:
+        try:
+            dt, rows = _guard_rows(pm, r, call)
+            argv = dt.ev(resolve(call.args[0], r.node), sym_env(r)()) if call.args else None
+        except (Unsupported, NeedAtom) as e:
+            ctx.gap("R05.6", f"render: conditions of the subline heading could not be evaluated ({e})")
+            continue
+        key = f"bool({path_of(argv)})"
+        bad = [v for v, ok in rows if not ok and v.get(key, True)]
+        ctx.instance("R05.6", r.where(call), f"subline heading rendered on {sum(1 for v, ok in rows if ok)} of {len(rows)} guard valuations; has-heading atom `{key[:50]}`")
+        if bad:
+            other = sorted({k for v in bad for k, x in v.items() if k != key})
+            ctx.violation("R05.6", r.short, "subline header guard " + "; ".join(o[:50] for o in other)[:120], r.where(call),
+                          f"the subline heading of a page that has one is rendered only under further conditions ({'; '.join(o[:60] for o in other)}) (e.g. first page only)")
+    f = pm.func("PageRenderer._format_group_header")
+    try:
+        dt = LDT(pm)
+        leaves = run_block(dt, f.node.body, sym_env(f), f)
+    except Unsupported as e:
+        ctx.gap("R05.6", f"_format_group_header could not be interpreted ({e})")
+        return
+    seen = False
+    for v, env, eff, out in leaves:
+        ret = out[1] if isinstance(out, tuple) and out[0] == "return" else None
+        if not has_sym(ret):
+            continue
+        elems = [p for p in parts(ret) if isinstance(p, ElemSym)]
+        gv = [p for e in elems for p in parts(e.source) if isinstance(p, SubSym) and p.key == "group_values"]
+        if not gv:
+            continue
+        seen = True
+        src = elems[0].source
+        meth = src.meth if isinstance(src, CallSym) else None
+        ctx.instance("R05.6", f.where(), f"subline heading text `{path_of(ret)[:80]}`")
+        if meth == "keys" or isinstance(src, SubSym):
+            uses_val = any(isinstance(p, SubSym) and p.key is elems[0] for p in parts(ret))
+            if not uses_val:
+                ctx.violation("R05.6", f.short, "heading text", f.where(), "the subline heading text is built from the column names, not from the page's group values")
+        elif meth not in ("values", "items"):
+            ctx.gap("R05.6", f"_format_group_header: iteration `{path_of(src)[:50]}` over the group values not recognised")
+    if not seen:
+        ctx.gap("R05.6", "_format_group_header: the text built from info['group_values'] was not re-identified")
+
+
 def check(ctx: Ctx) -> None:
     ctx.explain(
-        "R05.1 heading values and boundaries are computed from the page's own (start_row, end_row); page_relative_row = "
-        "row_idx + 1 - start_row (linear form). R05.2 decision tables of 'spanning rows shown' at render step 7 and "
-        "_render_body and of 'page_by columns removed' in prepare_dataframe over new_page x pageby_row are equal to "
-        "`not new_page or pageby_row != 'column'`. R05.3 the divider literal and filter form at its four sites; empty "
-        "heading text yields no budget. R05.4 sticky-flag discipline of the level loop, declaration order, page-top headings "
-        "for every level. R05.5 heading rows are part of the first row's height. R05.6 subline heading for every page, "
-        "rendered unconditionally. R05.7 column-wise boundary detection; segment < headings < cursor advance at each boundary.")
+        "The relevant functions / loop iterations are interpreted over symbolic inputs. R05.1 the page's heading info and boundaries are computed from the first row / row range "
+        "of the slice that is the page's data; _get_group_headers reads df[col][start_row] level by level in page_by order; a boundary's page-relative row = absolute row - "
+        "start_row and the rows start_row+1..end_row are all examined. R05.2 decision tables of 'spanning rows shown' at render step 7 and _render_body and of 'page_by columns "
+        "removed' in prepare_dataframe over new_page x pageby_row equal `not new_page or pageby_row != 'column'`. R05.3 one divider literal; a value that becomes a heading was "
+        "tested to be no divider; no heading budget for an empty text or a divider. R05.4 decision table of one level of the heading loop: emitted <=> changed or carried flag, "
+        "flag' = changed or flag, flag reset per boundary, heading text = new value, remembered values updated after / initialised from the page-top values; page-top headings "
+        "for every level. R05.5 heading rows are part of the first row's height and counted at group starts. R05.6 subline heading for every page, rendered whenever the page has "
+        "one. R05.7 column-wise comparison of consecutive rows; at a boundary: segment from the old cursor, then headings, cursor advanced on every path.")
     ctx.assume("group values are compared via str() consistently (as the library does)")
     ctx.undecided("correct heading placement for concrete group runs (depends on run-time page assignment)")
     r05_1(ctx)
